@@ -1167,9 +1167,9 @@ Lemma seek_fields r f p :
 Proof.
   unfold seek. destruct (rf r) eqn:E; cbn zeta; try (cbn; repeat split; reflexivity);
   destruct (close_read_fields r) as (E1 & E2 & E3 & E4 & _);
-  (destruct p as [| |n off]; [cbn; repeat split; assumption|cbn; repeat split; assumption|]);
+  (destruct p as [| |n po]; [cbn; repeat split; assumption|cbn; repeat split; assumption|]);
   (destruct (n <? 0); [cbn; repeat split; assumption|]);
-  destruct (seek_find f (logfiles (close_read r)) 0 n) as [i [j|]]; cbn; repeat split; assumption.
+  destruct (seek_find f (logfiles (close_read r)) 0 n) as [i' [j|]]; cbn; repeat split; assumption.
 Qed.
 
 Definition pos_nonneg (p : pos) : Prop := match p with PAt _ (Some off) => 0 <= off | _ => True end.
@@ -1217,3 +1217,1759 @@ Qed.
 
 Lemma refresh_w_same r f : c_rdonly (cf r) = false -> fst (refresh r f) = r.
 Proof. intro H. unfold refresh. rewrite H. reflexivity. Qed.
+
+(* ====================================================================================== *)
+(* constructor                                                                              *)
+(* ====================================================================================== *)
+Lemma scan_w_ok f c w0 r0 : fs_ok f -> c_rdonly c = false -> c_autorefresh c = false -> c_head c = false ->
+  w_ok f (scan (mkrl c [] 0 w0 r0 O) f) \/ exists i, w0 = WOpen i.
+Proof.
+  intros Hfs H1 H2 H3. destruct w0 as [| |i]; [left|left|right; eauto];
+  (unfold w_ok, scan; cbn [cf logfiles lsize wf set_logfiles];
+   split; [exact H1|]; split; [exact H2|]; split; [exact H3|];
+   split; [apply listing_asc; apply Hfs|]; split; [apply listing_nonneg|]; split; [reflexivity|];
+   split; [intros n i Hin Hl; apply In_listing; exists i; auto|intros i Hi; discriminate]).
+Qed.
+
+Definition norm_cfg (c : cfg) : cfg :=
+  mkcfg (c_mode c) (c_file_size c) (c_total_size c) (c_rdonly c) (c_autorefresh c && c_rdonly c) (c_head c)
+        (c_fixn c) (c_fixr c).
+
+Lemma construct_ok f c now : fs_ok f ->
+  let '(x, f', e) := construct c f now in
+  fs_ok f' /\ frame f f' /\ (forall n i, In (n, i) (dir f') -> In (n, i) (dir f)) /\
+  (c_rdonly c = true -> f' = f) /\
+  match x with
+  | None => e <> ROk
+  | Some r => e = ROk /\ cf r = norm_cfg c /\ rf r = RNone /\
+              (if c_rdonly c then rd_ok r /\ logfiles r = log_listing f else w_ok f' r /\ wf r = WNone)
+  end /\
+  (c_rdonly c = true -> top (log_listing f) < now -> x <> None).
+Proof.
+  intro Hfs. unfold construct.
+  destruct (c_head c && negb (c_rdonly c)) eqn:Ehd.
+  { split; [exact Hfs|]. split; [apply frame_refl|]. split; [auto|]. split; [auto|]. split; [discriminate|].
+    intros Hr. rewrite Hr in Ehd. rewrite andb_false_r in Ehd. discriminate. }
+  fold (norm_cfg c).
+  destruct (c_rdonly c) eqn:Erd.
+  - (* read-only: no pruning *)
+    set (r0 := scan (mkrl (norm_cfg c) [] 0 WClosed RNone 0) f).
+    assert (Hl : logfiles r0 = log_listing f) by reflexivity.
+    assert (Hr0 : forall k, rd_ok (set_ridx r0 k)).
+    { intro k. unfold rd_ok. cbn. rewrite Erd. repeat split; auto.
+      - apply listing_asc. apply Hfs.
+      - apply listing_nonneg.
+      - intros; discriminate. }
+    assert (Htop : top (logfiles r0) = match last (map Some (logfiles r0)) None with Some (n, _) => n | None => -1 end) by reflexivity.
+    destruct (last (map Some (logfiles r0)) None) as [[n s]|] eqn:El.
+    + destruct (Z.leb_spec now n).
+      * split; [exact Hfs|]. split; [apply frame_refl|]. split; [auto|]. split; [auto|]. split; [discriminate|].
+        intros _ Hlt. rewrite <- Hl, Htop in Hlt. lia.
+      * split; [exact Hfs|]. split; [apply frame_refl|]. split; [auto|]. split; [auto|].
+        split; [|intros; discriminate]. split; [reflexivity|]. split; [reflexivity|]. split; [reflexivity|].
+        split; [apply Hr0|reflexivity].
+    + split; [exact Hfs|]. split; [apply frame_refl|]. split; [auto|]. split; [auto|].
+      split; [|intros; discriminate]. split; [reflexivity|]. split; [reflexivity|]. split; [reflexivity|].
+      split; [apply Hr0|reflexivity].
+  - (* a writer: prune first *)
+    rewrite andb_true_r in Ehd.
+    set (r0 := scan (mkrl (norm_cfg c) [] 0 WNone RNone 0) f).
+    assert (Hw0 : w_ok f r0).
+    { destruct (scan_w_ok f (norm_cfg c) WNone RNone Hfs) as [H|[i H]]; auto; try discriminate.
+      cbn. rewrite Erd. apply andb_false_r. }
+    pose proof (prune_ok f r0 Hfs Hw0) as Hp. pose proof (prune_frame f r0 ltac:(apply Hw0)) as Hfr.
+    assert (Hrf : rf (fst (prune r0 f)) = RNone).
+    { rewrite prune_eq. cbn [fst]. unfold prune_r. destruct (ndel r0); [reflexivity|].
+      destruct (_ <=? _)%nat; reflexivity. }
+    destruct (prune r0 f) as [r1 f1]. cbn [snd fst] in *.
+    destruct Hp as (P1 & P2 & P3 & P4 & P5 & P6 & P7 & P8 & P9 & P10 & P11).
+    assert (Hset : w_ok f1 (set_ridx r1 (length (logfiles r1))) /\ wf (set_ridx r1 (length (logfiles r1))) = WNone).
+    { split; [apply (w_ok_same f1 r1); auto|]. cbn. rewrite P4. reflexivity. }
+    destruct (last (map Some (logfiles r1)) None) as [[n s]|] eqn:El.
+    + destruct (Z.leb_spec now n).
+      * split; [exact P1|]. split; [exact Hfr|]. split; [exact P8|]. split; [discriminate|]. split; [discriminate|discriminate].
+      * split; [exact P1|]. split; [exact Hfr|]. split; [exact P8|]. split; [discriminate|].
+        split; [|discriminate]. split; [reflexivity|]. split; [cbn; exact P3|]. split; [cbn; exact Hrf|exact Hset].
+    + split; [exact P1|]. split; [exact Hfr|]. split; [exact P8|]. split; [discriminate|].
+      split; [|discriminate]. split; [reflexivity|]. split; [cbn; exact P3|]. split; [cbn; exact Hrf|exact Hset].
+Qed.
+
+(* ====================================================================================== *)
+(* the reader's position                                                                    *)
+(* ====================================================================================== *)
+(* [cr]: every log file ever created, (name, inode), in creation order; the written history is
+   the concatenation of their chunks.  [taken n]: how many chunks of file [n] a reader has been
+   handed.  A reader stands at (cur, t): before file [cur] everything is taken or dead, [t] chunks
+   of [cur] are taken, nothing after it. *)
+Definition topc (cr : list (name * ino)) : Z := last (names cr) (-1).
+Definition bsum (t : nat) (cs : list (list Z)) : Z := zlen (concat (firstn t cs)).
+Definition dead (f : fs) (n : name) : Prop := lookup (dir f) n = None.
+
+Definition tag (n : name) (l : list (list Z)) : list (name * list Z) := map (pair n) l.
+Definition delivered (f : fs) (cr : list (name * ino)) (taken : name -> nat) : list (name * list Z) :=
+  flat_map (fun e => tag (fst e) (firstn (taken (fst e)) (chunks f (snd e)))) cr.
+
+Definition cr_ok (f : fs) (cr : list (name * ino)) : Prop :=
+  asc (names cr) /\
+  (forall n m i, In (n, i) cr -> In (m, i) cr -> n = m) /\
+  (forall n i, In (n, i) cr -> 0 < n /\ (i < length (store f))%nat) /\
+  (forall n i, In (n, i) (dir f) -> is_log n = true -> In (n, i) cr) /\
+  (forall n i, In (n, i) (dir f) -> is_log n = false -> forall m, ~ In (m, i) cr).
+
+Definition pos_ok (f : fs) (cr : list (name * ino)) (grow : option ino) (taken : name -> nat) (cur : Z) (t : nat) : Prop :=
+  (forall n i, In (n, i) cr -> n < cur -> dead f n \/ (taken n = length (chunks f i) /\ grow <> Some i)) /\
+  taken cur = t /\
+  (forall n, cur < n -> taken n = O) /\
+  cur <= topc cr + 1 /\
+  (forall n i, In (n, i) cr -> (taken n <= length (chunks f i))%nat).
+
+(* what every object's list and cursor satisfy *)
+Definition robj_ok (f : fs) (cr : list (name * ino)) (r : rl) : Prop :=
+  asc (names (logfiles r)) /\
+  (forall n, In n (names (logfiles r)) -> In n (names cr)) /\
+  (forall n i, In (n, i) cr -> n <= top (logfiles r) -> In n (names (logfiles r)) \/ dead f n) /\
+  (ridx r <= nlog r)%nat /\
+  (forall i off, rf r = ROpen i off -> exists n s, nth_error (logfiles r) (ridx r) = Some (n, s) /\ In (n, i) cr).
+
+Definition at_pos (f : fs) (cr : list (name * ino)) (r : rl) (cur : Z) (t : nat) : Prop :=
+  rf r <> RClosed /\
+  match nth_error (logfiles r) (ridx r) with
+  | Some (n, _) =>
+      cur = n /\
+      match rf r with
+      | ROpen i off => In (n, i) cr /\ off = bsum t (chunks f i) /\ (t <= length (chunks f i))%nat
+      | _ => t = O
+      end
+  | None =>
+      t = O /\ rf r = RNone /\ top (logfiles r) < cur /\
+      (forall n i, In (n, i) cr -> top (logfiles r) < n -> n < cur -> dead f n) /\
+      (* the recorded size of the last listed file is its real size (what tell() reports at the end) *)
+      (forall i, In (top (logfiles r), i) cr -> dead f (top (logfiles r)) \/ top_size (logfiles r) = isize f i)
+  end.
+
+(* ---- chunk arithmetic ------------------------------------------------------------------- *)
+Lemma bsum_0 cs : bsum 0 cs = 0. Proof. reflexivity. Qed.
+
+Lemma bsum_all cs : bsum (length cs) cs = zlen (concat cs).
+Proof. unfold bsum. rewrite firstn_all. reflexivity. Qed.
+
+Lemma skipn_concat (cs : list (list Z)) t :
+  skipn (Z.to_nat (bsum t cs)) (concat cs) = concat (skipn t cs).
+Proof.
+  unfold bsum, zlen. rewrite Nat2Z.id.
+  rewrite <- (firstn_skipn t cs) at 2. rewrite concat_app.
+  rewrite skipn_app, skipn_all, Nat.sub_diag. reflexivity.
+Qed.
+
+Lemma concat_nil_nonempty (cs : list (list Z)) : (forall c, In c cs -> c <> []) -> concat cs = [] -> cs = [].
+Proof.
+  intros H E. destruct cs as [|c cs]; [reflexivity|]. cbn in E. apply app_eq_nil in E as [E _].
+  exfalso. apply (H c); [left; reflexivity|exact E].
+Qed.
+
+Lemma bsum_app t cs x : (t <= length cs)%nat -> bsum t (cs ++ x) = bsum t cs.
+Proof. intro H. unfold bsum. rewrite firstn_app. replace (t - length cs)%nat with O by lia. cbn. rewrite app_nil_r. reflexivity. Qed.
+
+Lemma firstn_app_le {A} t (cs x : list A) : (t <= length cs)%nat -> firstn t (cs ++ x) = firstn t cs.
+Proof. intro H. rewrite firstn_app. replace (t - length cs)%nat with O by lia. cbn. apply app_nil_r. Qed.
+
+Lemma bsum_add t c cs : (t + c <= length cs)%nat ->
+  bsum (t + c) cs = bsum t cs + zlen (concat (firstn c (skipn t cs))).
+Proof.
+  intro H. unfold bsum. rewrite <- (firstn_skipn t cs) at 1.
+  rewrite firstn_app. rewrite firstn_length_le by lia. replace (t + c - t)%nat with c by lia.
+  rewrite firstn_firstn. replace (Init.Nat.min (t + c) t) with t by lia.
+  rewrite concat_app, zlen_app. reflexivity.
+Qed.
+
+(* ---- delivered ---------------------------------------------------------------------------- *)
+Definition upd (g : name -> nat) (n : name) (v : nat) : name -> nat := fun m => if m =? n then v else g m.
+
+Lemma upd_same g n v : upd g n v n = v.
+Proof. unfold upd. rewrite Z.eqb_refl. reflexivity. Qed.
+Lemma upd_other g n v m : m <> n -> upd g n v m = g m.
+Proof. intro H. unfold upd. destruct (Z.eqb_spec m n); [congruence|reflexivity]. Qed.
+
+Lemma firstn_add {A} t c (l : list A) : firstn (t + c) l = firstn t l ++ firstn c (skipn t l).
+Proof.
+  revert l; induction t as [|t IH]; intro l; [reflexivity|]. destruct l as [|x l]; [cbn; destruct c; reflexivity|].
+  cbn [Nat.add firstn skipn app]. rewrite IH. reflexivity.
+Qed.
+
+Lemma delivered_ext f cr g g' : (forall n i, In (n, i) cr -> g n = g' n) -> delivered f cr g = delivered f cr g'.
+Proof.
+  unfold delivered. induction cr as [|[n i] cr IH]; intro H; [reflexivity|]. cbn [flat_map fst snd].
+  rewrite (H n i (or_introl eq_refl)), IH; [reflexivity|]. intros m j Hm. apply (H m j). right. exact Hm.
+Qed.
+
+Lemma delivered_fs f f' cr g :
+  (forall n i, In (n, i) cr -> firstn (g n) (chunks f' i) = firstn (g n) (chunks f i)) ->
+  delivered f' cr g = delivered f cr g.
+Proof.
+  unfold delivered. induction cr as [|[n i] cr IH]; intro H; [reflexivity|]. cbn [flat_map fst snd].
+  rewrite (H n i (or_introl eq_refl)), IH; [reflexivity|]. intros m j Hm. apply (H m j). right. exact Hm.
+Qed.
+
+Lemma delivered_snoc f cr g n i : delivered f (cr ++ [(n, i)]) g = delivered f cr g ++ tag n (firstn (g n) (chunks f i)).
+Proof. unfold delivered. rewrite flat_map_app. cbn. rewrite app_nil_r. reflexivity. Qed.
+
+Lemma delivered_zero f cr g : (forall n i, In (n, i) cr -> g n = O) -> delivered f cr g = [].
+Proof.
+  unfold delivered. induction cr as [|[n i] cr IH]; intro H; [reflexivity|]. cbn [flat_map fst snd].
+  rewrite (H n i (or_introl eq_refl)), IH; [reflexivity|]. intros m j Hm. apply (H m j). right. exact Hm.
+Qed.
+
+Lemma delivered_update f cr g n i c : asc (names cr) -> In (n, i) cr -> (forall m, n < m -> g m = O) ->
+  delivered f cr (upd g n (g n + c)) = delivered f cr g ++ tag n (firstn c (skipn (g n) (chunks f i))).
+Proof.
+  intros Ha Hin Hz. induction cr as [|[a b] cr IH]; [destruct Hin|].
+  cbn [names map fst] in Ha. apply asc_cons in Ha as [Ha Hb]. rewrite Forall_forall in Hb.
+  unfold delivered in *. cbn [flat_map fst snd].
+  destruct Hin as [Hin|Hin].
+  - inversion Hin; subst a b. rewrite upd_same, firstn_add.
+    assert (Hrest : forall g', (forall m j, In (m, j) cr -> g' m = O) ->
+               flat_map (fun e => tag (fst e) (firstn (g' (fst e)) (chunks f (snd e)))) cr = []).
+    { intros g' Hg'. apply (delivered_zero f cr g'). exact Hg'. }
+    rewrite (Hrest (upd g n (g n + c))), (Hrest g).
+    + rewrite !app_nil_r. unfold tag. rewrite map_app. reflexivity.
+    + intros m j Hm. apply Hz. apply Hb. apply (in_map fst) in Hm. exact Hm.
+    + intros m j Hm. assert (n < m) by (apply Hb; apply (in_map fst) in Hm; exact Hm).
+      rewrite upd_other by lia. apply Hz. assumption.
+  - assert (a < n) by (apply Hb; apply (in_map fst) in Hin; exact Hin).
+    rewrite upd_other by lia. rewrite (IH Ha Hin). rewrite app_assoc. reflexivity.
+Qed.
+
+(* ---- the search of refresh_logfiles --------------------------------------------------------- *)
+Lemma refresh_find_spec (L : list (name * Z)) : forall k old_path old_ts,
+  let '(j, close) := refresh_find L k old_path old_ts in
+  exists L1 L2, L = L1 ++ L2 /\ j = (k + length L1)%nat /\
+    (forall m, In m (names L1) -> m <= old_ts /\ old_path <> Some m) /\
+    match L2 with
+    | [] => close = true
+    | (m, _) :: _ => (close = false /\ old_path = Some m) \/ (close = true /\ old_ts < m /\ old_path <> Some m)
+    end.
+Proof.
+  induction L as [|[n s] L IH]; intros k old_path old_ts; cbn [refresh_find].
+  - exists [], []. split; [reflexivity|]. split; [cbn; lia|]. split; [intros m []|reflexivity].
+  - destruct (match old_path with Some p => n =? p | None => false end) eqn:E1.
+    + exists [], ((n, s) :: L). split; [reflexivity|]. split; [cbn; lia|]. split; [intros m []|].
+      left. split; [reflexivity|]. destruct old_path as [p|]; [|discriminate]. apply Z.eqb_eq in E1. subst. reflexivity.
+    + assert (Hnp : old_path <> Some n).
+      { destruct old_path as [p|]; [|discriminate]. intro H. inversion H; subst. rewrite Z.eqb_refl in E1. discriminate. }
+      destruct (Z.ltb_spec old_ts n).
+      * exists [], ((n, s) :: L). split; [reflexivity|]. split; [cbn; lia|]. split; [intros m []|]. right. auto.
+      * specialize (IH (S k) old_path old_ts). destruct (refresh_find L (S k) old_path old_ts) as [j close].
+        destruct IH as (L1 & L2 & -> & -> & H1 & H2). exists ((n, s) :: L1), L2.
+        split; [reflexivity|]. split; [cbn [length]; lia|]. split; [|exact H2].
+        intros m [Hm|Hm]; [cbn in Hm; subst m; split; [lia|exact Hnp]|apply H1; exact Hm].
+Qed.
+
+(* ---- refresh_logfiles and the position ------------------------------------------------------ *)
+Lemma topc_max cr n i : asc (names cr) -> In (n, i) cr -> n <= topc cr.
+Proof. intros Ha Hin. unfold topc. apply asc_last_max; [exact Ha|]. apply (in_map fst) in Hin. exact Hin. Qed.
+
+Lemma alive_listed f n i : lookup (dir f) n = Some i -> 0 <= n -> In n (names (log_listing f)).
+Proof.
+  intros Hl Hn. apply lookup_In in Hl. unfold names. apply in_map_iff. exists (n, isize f i). split; [reflexivity|].
+  apply In_listing. exists i. split; [exact Hl|]. split; [apply is_log_true; exact Hn|reflexivity].
+Qed.
+
+Lemma listed_alive f n : fs_ok f -> In n (names (log_listing f)) -> exists i, lookup (dir f) n = Some i /\ 0 <= n.
+Proof.
+  intros (A & _) H. unfold names in H. apply in_map_iff in H as [[m s] [Hm H]]. cbn in Hm. subst m.
+  apply In_listing in H as (i & Hin & Hl & _). exists i. split; [apply In_lookup; assumption|apply is_log_true; exact Hl].
+Qed.
+
+Lemma not_listed_dead f n : 0 <= n -> ~ In n (names (log_listing f)) -> dead f n.
+Proof.
+  intros Hn H. unfold dead. destruct (lookup (dir f) n) as [i|] eqn:E; [|reflexivity].
+  exfalso. apply H. eapply alive_listed; eauto.
+Qed.
+
+Lemma robj_ok_scan f cr (c : cfg) w x j : fs_ok f -> cr_ok f cr -> (j <= length (log_listing f))%nat ->
+  (forall i off, x = ROpen i off -> exists n s, nth_error (log_listing f) j = Some (n, s) /\ In (n, i) cr) ->
+  robj_ok f cr (mkrl c (log_listing f) (sum_sizes (log_listing f)) w x j).
+Proof.
+  intros Hfs (C0 & Cinj & Cpos & C1 & C2) Hj Hx. unfold robj_ok. cbn [logfiles rf ridx nlog].
+  split; [apply listing_asc; apply Hfs|]. split.
+  { intros n Hn. apply (listed_alive f n Hfs) in Hn as (i & Hl & Hn0). apply lookup_In in Hl.
+    apply (in_map fst cr (n, i)). apply C1; [exact Hl|apply is_log_true; exact Hn0]. }
+  split.
+  { intros n i Hin _. destruct (Cpos n i Hin) as [Hn0 _].
+    destruct (lookup (dir f) n) as [j'|] eqn:E; [left; eapply alive_listed; eauto; lia|right; exact E]. }
+  split; [exact Hj|exact Hx].
+Qed.
+
+Lemma refresh_unfold r f :
+  let '(old_ts, old_path) :=
+    match nth_error (logfiles r) (ridx r) with
+    | Some (n, _) => (n, Some n)
+    | None => match last (map Some (logfiles r)) None with
+              | Some (n, _) => (n, None)
+              | None => (0, None)
+              end
+    end in
+  let '(j, close) := refresh_find (log_listing f) O old_path old_ts in
+  refresh_logfiles r f =
+  mkrl (cf r) (log_listing f) (sum_sizes (log_listing f)) (wf r)
+       (if close then match rf r with ROpen _ _ => RNone | x => x end else rf r) j.
+Proof.
+  unfold refresh_logfiles.
+  destruct (match nth_error (logfiles r) (ridx r) with
+            | Some (n, _) => (n, Some n)
+            | None => match last (map Some (logfiles r)) None with
+                      | Some (n, _) => (n, None) | None => (0, None) end end) as [old_ts old_path].
+  change (logfiles (scan r f)) with (log_listing f).
+  destruct (refresh_find (log_listing f) 0 old_path old_ts) as [j close].
+  unfold set_ridx, set_rf, scan, set_logfiles; cbn [cf logfiles lsize wf rf ridx].
+  destruct close; [|reflexivity]. destruct (rf r); reflexivity.
+Qed.
+
+Lemma names_app {B} (a b : list (Z * B)) : names (a ++ b) = names a ++ names b.
+Proof. unfold names. apply map_app. Qed.
+
+Lemma nth_error_split {A} (a : list A) x b : nth_error (a ++ x :: b) (length a) = Some x.
+Proof. rewrite nth_error_app2 by lia. rewrite Nat.sub_diag. reflexivity. Qed.
+
+Lemma top_lt_all (L : list (name * Z)) v : (forall m, In m (names L) -> m < v) -> -1 < v -> top L < v.
+Proof.
+  intros H Hv. destruct L as [|e L]; [cbn; exact Hv|].
+  apply H. pose proof (top_In (e :: L) ltac:(discriminate)) as Hin. apply (in_map fst) in Hin. exact Hin.
+Qed.
+
+Lemma top_ge_m1 (L : list (name * Z)) : (forall n, In n (names L) -> 0 < n) -> -1 <= top L.
+Proof.
+  intro H. destruct L as [|e L]; [cbn; lia|].
+  pose proof (top_In (e :: L) ltac:(discriminate)) as Hin. apply (in_map fst) in Hin. apply H in Hin. cbn [fst] in Hin. lia.
+Qed.
+
+Lemma top_ge_all (L : list (name * Z)) m : asc (names L) -> In m (names L) -> m <= top L.
+Proof.
+  intros Ha Hm. unfold names in Hm. apply in_map_iff in Hm as [[n s] [<- H]]. cbn. eapply top_max; eauto.
+Qed.
+
+Lemma cr_fun (cr : list (name * ino)) n i j : asc (names cr) -> In (n, i) cr -> In (n, j) cr -> i = j.
+Proof.
+  intros C0 Hi Hj. unfold names in C0. apply asc_NoDup in C0.
+  induction cr as [|[a b] cr IH]; [destruct Hi|]. cbn [map fst] in C0. inversion C0 as [|? ? Hx Hnd]; subst.
+  destruct Hi as [Hi|Hi], Hj as [Hj|Hj].
+  - congruence.
+  - inversion Hi; subst. exfalso. apply Hx. apply (in_map fst) in Hj. exact Hj.
+  - inversion Hj; subst. exfalso. apply Hx. apply (in_map fst) in Hi. exact Hi.
+  - auto.
+Qed.
+
+Lemma listing_top_size f cr (L : list (name * Z)) : fs_ok f -> cr_ok f cr -> L = log_listing f ->
+  forall i, In (top L, i) cr -> dead f (top L) \/ top_size L = isize f i.
+Proof.
+  intros Hfs (C0 & Cinj & Cpos & C1 & C2) -> i Hi. destruct (log_listing f) as [|e l] eqn:El.
+  - cbn in Hi. destruct (Cpos _ _ Hi). lia.
+  - right. rewrite <- El in *. assert (Hne : log_listing f <> []) by (rewrite El; discriminate).
+    pose proof (top_In _ Hne) as Hin. apply In_listing in Hin as (j & Hj & Hl & ->).
+    specialize (C1 _ _ Hj Hl). rewrite (cr_fun cr _ i j C0 Hi C1). reflexivity.
+Qed.
+
+Lemma refresh_pos f cr grow taken r cur t :
+  fs_ok f -> cr_ok f cr -> robj_ok f cr r -> at_pos f cr r cur t -> pos_ok f cr grow taken cur t ->
+  let r2 := refresh_logfiles r f in
+  robj_ok f cr r2 /\ cf r2 = cf r /\ wf r2 = wf r /\
+  exists cur2 t2, at_pos f cr r2 cur2 t2 /\ pos_ok f cr grow taken cur2 t2 /\
+    (forall i off, rf r2 = ROpen i off -> rf r = ROpen i off /\ cur2 = cur /\ t2 = t) /\
+    (rf r2 = RNone \/ rf r2 = rf r).
+Proof.
+  intros Hfs Hcr Hr Hat Hpos. cbn zeta.
+  pose proof Hcr as (C0 & Cinj & Cpos & C1 & C2).
+  destruct Hr as (Ra & Rsub & R9 & Rle & R6).
+  destruct Hpos as (P1 & P2 & P3 & P4 & P5).
+  destruct Hat as (Hnc & Hat).
+  pose proof (listing_asc f (proj1 Hfs)) as La.
+  pose proof (refresh_unfold r f) as Hu.
+  destruct (nth_error (logfiles r) (ridx r)) as [[n s0]|] eqn:En.
+  - (* standing at file n *)
+    destruct Hat as (-> & Hat).
+    pose proof (refresh_find_spec (log_listing f) O (Some n) n) as Hs.
+    destruct (refresh_find (log_listing f) O (Some n) n) as [j close].
+    destruct Hs as (L1 & L2 & HL & -> & H1 & H2). rewrite Hu. clear Hu. cbn [Nat.add].
+    assert (Hn0 : 0 < n).
+    { assert (Hin : In n (names cr)) by (apply Rsub; apply nth_error_In in En; apply (in_map fst) in En; exact En).
+      unfold names in Hin. apply in_map_iff in Hin as [[m i] [<- Hin]]. apply (Cpos m i Hin). }
+    assert (H1lt : forall m, In m (names L1) -> m < n).
+    { intros m Hm. destruct (H1 m Hm) as [Hle Hne]. assert (m <> n) by congruence. lia. }
+    rewrite HL in La. rewrite names_app in La. apply asc_app in La as (La1 & La2 & La12).
+    assert (Hafter : forall m s L2', L2 = (m, s) :: L2' -> forall k, In k (names L2') -> m < k).
+    { intros m s L2' -> k Hk. change (names ((m, s) :: L2')) with (m :: names L2') in La2.
+      apply asc_cons in La2 as [_ La2]. rewrite Forall_forall in La2. apply La2. exact Hk. }
+    destruct L2 as [|[m s] L2].
+    + (* no file at or after n: at the end *)
+      subst close. rewrite app_nil_r in HL.
+      assert (Hdeadn : dead f n).
+      { apply not_listed_dead; [lia|]. rewrite HL. intro H. apply H1lt in H. lia. }
+      split; [|split; [reflexivity|split; [reflexivity|]]].
+      { apply robj_ok_scan; auto; [rewrite HL; lia|]. intros i off H. destruct (rf r); discriminate. }
+      exists (n + 1), O. split; [|split; [|split]].
+      * split; [cbn; destruct (rf r); try discriminate; congruence|]. cbn [logfiles ridx rf].
+        rewrite HL. rewrite (proj2 (nth_error_None L1 (length L1)) ltac:(lia)).
+        split; [reflexivity|]. split; [destruct (rf r); try reflexivity; congruence|].
+        split; [apply top_lt_all; [intros m Hm; apply H1lt in Hm; lia|lia]|].
+        split; [|apply (listing_top_size f cr L1 Hfs Hcr); symmetry; exact HL].
+        intros k i Hk Hgt Hlt. destruct (Z.eq_dec k n) as [->|Hne]; [exact Hdeadn|].
+        apply not_listed_dead; [destruct (Cpos k i Hk); lia|]. rewrite HL. intro H.
+        pose proof (top_ge_all L1 k La1 H). lia.
+      * split; [|split; [apply P3; lia|split; [intros k Hk; apply P3; lia|split; [|exact P5]]]].
+        -- intros k i Hk Hlt. destruct (Z.eq_dec k n) as [->|Hne]; [left; exact Hdeadn|]. apply (P1 k i Hk). lia.
+        -- assert (Hin : In n (names cr)) by (apply Rsub; apply nth_error_In in En; apply (in_map fst) in En; exact En).
+           unfold names in Hin. apply in_map_iff in Hin as [[m i] [Hm Hin]]. cbn in Hm. subst m.
+           pose proof (topc_max cr n i C0 Hin). lia.
+      * intros i off H. cbn in H. destruct (rf r); discriminate.
+      * left. cbn. destruct (rf r); try reflexivity. congruence.
+    + destruct H2 as [[-> Hm]|(-> & Hlt & Hne)].
+      * (* the file is still there *)
+        inversion Hm; subst m. clear Hm.
+        split; [|split; [reflexivity|split; [reflexivity|]]].
+        { apply robj_ok_scan; auto; [rewrite HL, app_length; cbn; lia|].
+          intros i off H. destruct (R6 i off H) as (n' & s' & Hn' & Hin'). inversion Hn'; subst n' s'.
+          exists n, s. split; [rewrite HL; apply nth_error_split|exact Hin']. }
+        exists n, t. split; [|split; [|split]].
+        -- split; [exact Hnc|]. cbn [logfiles ridx rf]. rewrite HL, nth_error_split. split; [reflexivity|exact Hat].
+        -- repeat split; assumption.
+        -- intros i off H. cbn in H. auto.
+        -- right. reflexivity.
+      * (* the file is gone, a newer one follows *)
+        assert (Hdeadn : dead f n).
+        { apply not_listed_dead; [lia|]. rewrite HL, names_app. intro H. apply in_app_or in H as [H|H].
+          - apply H1lt in H. lia.
+          - change (names ((m, s) :: L2)) with (m :: names L2) in H. destruct H as [H|H]; [lia|]. apply (Hafter m s L2 eq_refl) in H. lia. }
+        assert (Hmcr : In m (names cr)).
+        { assert (In m (names (log_listing f))) by (rewrite HL, names_app; apply in_or_app; right; left; reflexivity).
+          apply (listed_alive f m Hfs) in H as (i & Hl & Hm0). apply lookup_In in Hl.
+          apply (in_map fst cr (m, i)). apply C1; [exact Hl|apply is_log_true; exact Hm0]. }
+        split; [|split; [reflexivity|split; [reflexivity|]]].
+        { apply robj_ok_scan; auto; [rewrite HL, app_length; cbn; lia|]. intros i off H. destruct (rf r); discriminate. }
+        exists m, O. split; [|split; [|split]].
+        -- split; [cbn; destruct (rf r); try discriminate; congruence|]. cbn [logfiles ridx rf].
+           rewrite HL, nth_error_split. split; [reflexivity|]. destruct (rf r); try reflexivity; congruence.
+        -- split; [|split; [apply P3; lia|split; [intros k Hk; apply P3; lia|split; [|exact P5]]]].
+           ++ intros k i Hk Hklt. destruct (Z.lt_trichotomy k n) as [Hc|[->|Hc]]; [apply (P1 k i Hk Hc)|left; exact Hdeadn|].
+              left. apply not_listed_dead; [destruct (Cpos k i Hk); lia|]. rewrite HL, names_app. intro H.
+              apply in_app_or in H as [H|H]; [apply H1lt in H; lia|]. change (names ((m, s) :: L2)) with (m :: names L2) in H.
+              destruct H as [H|H]; [lia|]. apply (Hafter m s L2 eq_refl) in H. lia.
+           ++ unfold names in Hmcr. apply in_map_iff in Hmcr as [[m' i] [Hm' Hin]]. cbn in Hm'. subst m'.
+              pose proof (topc_max cr m i C0 Hin). lia.
+        -- intros i off H. cbn in H. destruct (rf r); discriminate.
+        -- left. cbn. destruct (rf r); try reflexivity. congruence.
+  - (* at the end of the known list *)
+    destruct Hat as (-> & Hrf & Htop & Hgap & Hsz).
+    assert (Htopge : -1 <= top (logfiles r)).
+    { apply top_ge_m1. intros k Hk. apply Rsub in Hk. unfold names in Hk. apply in_map_iff in Hk as [[k' i] [<- Hk]].
+      apply (Cpos k' i Hk). }
+    set (old_ts := match last (map Some (logfiles r)) None with Some (n, _) => n | None => 0 end).
+    assert (Hu' : let '(j, close) := refresh_find (log_listing f) 0 None old_ts in
+                  refresh_logfiles r f = mkrl (cf r) (log_listing f) (sum_sizes (log_listing f)) (wf r)
+                     (if close then match rf r with ROpen _ _ => RNone | x => x end else rf r) j).
+    { unfold old_ts. destruct (last (map Some (logfiles r)) None) as [[n s]|]; exact Hu. }
+    clear Hu.
+    assert (Hots : top (logfiles r) <= old_ts /\ (forall k i, In (k, i) cr -> top (logfiles r) < k -> old_ts < k)).
+    { unfold old_ts, top. destruct (last (map Some (logfiles r)) None) as [[n s]|]; [split; [lia|auto]|].
+      split; [lia|]. intros k i Hk _. destruct (Cpos k i Hk). lia. }
+    destruct Hots as [Hots1 Hots2].
+    pose proof (refresh_find_spec (log_listing f) O None old_ts) as Hs.
+    destruct (refresh_find (log_listing f) O None old_ts) as [j close].
+    destruct Hs as (L1 & L2 & HL & -> & H1 & H2). rewrite Hu'. clear Hu'. cbn [Nat.add]. rewrite Hrf.
+    rewrite HL in La. rewrite names_app in La. apply asc_app in La as (La1 & La2 & La12).
+    assert (Hlisted_cr : forall k, In k (names (log_listing f)) -> exists i, In (k, i) cr /\ lookup (dir f) k = Some i).
+    { intros k Hk. apply (listed_alive f k Hfs) in Hk as (i & Hl & Hk0). exists i. split; [|exact Hl].
+      apply C1; [apply lookup_In; exact Hl|apply is_log_true; exact Hk0]. }
+    assert (Hafter : forall m s L2', L2 = (m, s) :: L2' -> forall k, In k (names L2') -> m < k).
+    { intros m s L2' -> k Hk. change (names ((m, s) :: L2')) with (m :: names L2') in La2.
+      apply asc_cons in La2 as [_ La2]. rewrite Forall_forall in La2. apply La2. exact Hk. }
+    destruct L2 as [|[m s] L2].
+    + subst close. rewrite app_nil_r in HL.
+      split; [|split; [reflexivity|split; [reflexivity|]]].
+      { apply robj_ok_scan; auto; [rewrite HL; lia|]. intros i off H. discriminate. }
+      exists cur, O. split; [|split; [|split]].
+      * split; [discriminate|]. cbn [logfiles ridx rf]. rewrite HL.
+        rewrite (proj2 (nth_error_None L1 (length L1)) ltac:(lia)).
+        split; [reflexivity|]. split; [reflexivity|].
+        assert (Htop' : top L1 < cur).
+        { apply top_lt_all; [|lia]. intros k Hk. destruct (H1 k Hk) as [Hle _].
+          assert (Hk' : In k (names (log_listing f))) by (rewrite HL; exact Hk).
+          destruct (Hlisted_cr k Hk') as (i & Hin & Hl).
+          destruct (Z.le_gt_cases k (top (logfiles r))); [lia|]. specialize (Hots2 k i Hin ltac:(lia)). lia. }
+        split; [exact Htop'|].
+        split; [|apply (listing_top_size f cr L1 Hfs Hcr); symmetry; exact HL].
+        intros k i Hk Hgt Hlt. apply not_listed_dead; [destruct (Cpos k i Hk); lia|]. rewrite HL. intro H.
+        pose proof (top_ge_all L1 k La1 H). lia.
+      * repeat split; assumption.
+      * intros i off H. discriminate.
+      * left. reflexivity.
+    + destruct H2 as [[_ H2]|(-> & Hlt & _)]; [discriminate|].
+      assert (Hm : In m (names (log_listing f))) by (rewrite HL, names_app; apply in_or_app; right; left; reflexivity).
+      destruct (Hlisted_cr m Hm) as (im & Hmcr & Hmalive).
+      assert (Hmcur : cur <= m).
+      { destruct (Z.le_gt_cases cur m); [assumption|]. exfalso.
+        assert (Hd : dead f m) by (apply (Hgap m im Hmcr); lia). unfold dead in Hd. congruence. }
+      split; [|split; [reflexivity|split; [reflexivity|]]].
+      { apply robj_ok_scan; auto; [rewrite HL, app_length; cbn; lia|]. intros i off H. discriminate. }
+      exists m, O. split; [|split; [|split]].
+      * split; [discriminate|]. cbn [logfiles ridx rf]. rewrite HL, nth_error_split. split; reflexivity.
+      * split; [|split; [|split; [intros k Hk; apply P3; lia|split; [|exact P5]]]].
+        -- intros k i Hk Hklt. destruct (Z.lt_ge_cases k cur) as [Hc|Hc]; [apply (P1 k i Hk Hc)|].
+           left. apply not_listed_dead; [destruct (Cpos k i Hk); lia|]. rewrite HL, names_app. intro H.
+           apply in_app_or in H as [H|H].
+           ++ destruct (H1 k H) as [Hle _]. specialize (Hots2 k i Hk ltac:(lia)). lia.
+           ++ change (names ((m, s) :: L2)) with (m :: names L2) in H. destruct H as [H|H]; [lia|]. apply (Hafter m s L2 eq_refl) in H. lia.
+        -- destruct (Z.eq_dec m cur) as [->|]; [exact P2|apply P3; lia].
+        -- pose proof (topc_max cr m im C0 Hmcr). lia.
+      * intros i off H. discriminate.
+      * left. reflexivity.
+Qed.
+
+(* ---- moving along the list ------------------------------------------------------------------- *)
+Lemma nth_consec (L : list (name * Z)) : forall a n s n' s',
+  asc (names L) -> nth_error L a = Some (n, s) -> nth_error L (S a) = Some (n', s') ->
+  n < n' /\ forall k, In k (names L) -> k <= n \/ n' <= k.
+Proof.
+  induction L as [|[x sx] L IH]; intros a n s n' s' Ha H1 H2; [destruct a; discriminate|].
+  change (names ((x, sx) :: L)) with (x :: names L) in *. apply asc_cons in Ha as [Ha Hb]. rewrite Forall_forall in Hb.
+  destruct a as [|a].
+  - cbn in H1. inversion H1; subst x sx. destruct L as [|[y sy] L]; [discriminate|]. cbn in H2. inversion H2; subst y sy.
+    change (names ((n', s') :: L)) with (n' :: names L) in *.
+    split; [apply Hb; left; reflexivity|].
+    intros k [<-|[<-|Hk]]; [left; lia|right; lia|right].
+    apply asc_cons in Ha as [_ Ha]. rewrite Forall_forall in Ha. specialize (Ha k Hk). lia.
+  - cbn in H1, H2. destruct (IH a n s n' s' Ha H1 H2) as [Hlt Hall]. split; [exact Hlt|].
+    intros k [<-|Hk]; [|apply Hall; exact Hk]. left.
+    assert (x < n) by (apply Hb; apply nth_error_In in H1; apply (in_map fst) in H1; exact H1). lia.
+Qed.
+
+Lemma nth_first_min (L : list (name * Z)) n s k : asc (names L) -> nth_error L 0 = Some (n, s) -> In k (names L) -> n <= k.
+Proof.
+  intros Ha H Hk. destruct L as [|[x sx] L]; [discriminate|]. cbn in H. inversion H; subst.
+  change (names ((n, s) :: L)) with (n :: names L) in *. apply asc_cons in Ha as [_ Hb]. rewrite Forall_forall in Hb.
+  destruct Hk as [<-|Hk]; [lia|]. specialize (Hb k Hk). lia.
+Qed.
+
+Lemma nth_last_top (L : list (name * Z)) a n s : nth_error L a = Some (n, s) -> (length L <= S a)%nat -> top L = n.
+Proof.
+  intros H Hl. assert (Ha : (a < length L)%nat) by (apply nth_error_Some; congruence).
+  assert (S a = length L) by lia.
+  destruct (snoc_cases L) as [->|(L' & x & ->)]; [cbn in Ha; lia|].
+  rewrite top_snoc. rewrite app_length in H0. cbn in H0. assert (a = length L') by lia. subst a.
+  rewrite nth_error_split in H. inversion H. reflexivity.
+Qed.
+
+Lemma robj_ok_cursor f cr r x j : robj_ok f cr r -> (j <= nlog r)%nat ->
+  (forall i off, x = ROpen i off -> exists n s, nth_error (logfiles r) j = Some (n, s) /\ In (n, i) cr) ->
+  robj_ok f cr (set_read r x j).
+Proof.
+  intros (Ra & Rsub & R9 & Rle & R6) Hj Hx. unfold robj_ok. cbn [logfiles ridx rf set_read nlog].
+  repeat (split; [assumption|]). exact Hx.
+Qed.
+
+(* leaving the file at index [a] (fully taken and not growing, or dead) for the next one in the list *)
+Lemma pass_file f cr grow taken (r : rl) n s n' s' :
+  cr_ok f cr -> robj_ok f cr r -> (forall g, grow = Some g -> In (topc cr, g) cr) ->
+  nth_error (logfiles r) (ridx r) = Some (n, s) -> nth_error (logfiles r) (S (ridx r)) = Some (n', s') ->
+  pos_ok f cr grow taken n (taken n) ->
+  (dead f n \/ exists i, In (n, i) cr /\ taken n = length (chunks f i)) ->
+  at_pos f cr (set_read r RNone (S (ridx r))) n' O /\ pos_ok f cr grow taken n' O /\
+  robj_ok f cr (set_read r RNone (S (ridx r))).
+Proof.
+  intros Hcr Hr Hg H1 H2 Hpos Hdone.
+  pose proof Hcr as (C0 & Cinj & Cpos & C1 & C2). pose proof Hr as (Ra & Rsub & R9 & Rle & R6).
+  destruct Hpos as (P1 & P2 & P3 & P4 & P5).
+  destruct (nth_consec _ _ _ _ _ _ Ra H1 H2) as [Hlt Hbetween].
+  assert (Hn'cr : exists i', In (n', i') cr).
+  { assert (Hin : In n' (names cr)) by (apply Rsub; apply nth_error_In in H2; apply (in_map fst) in H2; exact H2).
+    unfold names in Hin. apply in_map_iff in Hin as [[m i] [<- Hin]]. exists i. exact Hin. }
+  destruct Hn'cr as [i' Hn'cr].
+  split; [|split].
+  - split; [cbn; discriminate|]. cbn [logfiles ridx rf set_read]. rewrite H2. split; reflexivity.
+  - split; [|split; [apply P3; exact Hlt|split; [intros k Hk; apply P3; lia|split; [|exact P5]]]].
+    + intros k i Hk Hklt. destruct (Z.lt_trichotomy k n) as [Hc|[->|Hc]]; [apply (P1 k i Hk Hc)| |].
+      * destruct Hdone as [Hd|(i0 & Hi0 & Ht)]; [left; exact Hd|right].
+        assert (i0 = i).
+        { destruct (in_split _ _ Hi0) as (l1 & l2 & E). clear - C0 Hk Hi0. unfold names in C0. apply asc_NoDup in C0.
+          induction cr as [|[a b] cr IH]; [destruct Hk|]. cbn [map fst] in C0. inversion C0 as [|? ? Hx Hnd]; subst.
+          destruct Hk as [Hk|Hk], Hi0 as [Hi0|Hi0].
+          - congruence.
+          - inversion Hk; subst. exfalso. apply Hx. apply (in_map fst) in Hi0. exact Hi0.
+          - inversion Hi0; subst. exfalso. apply Hx. apply (in_map fst) in Hk. exact Hk.
+          - auto. }
+        subst i0. split; [exact Ht|]. intros Hgi. apply Hg in Hgi. pose proof (Cinj _ _ _ Hgi Hk) as E.
+        pose proof (topc_max cr n' i' C0 Hn'cr). lia.
+      * left. assert (Hktop : k <= top (logfiles r)).
+        { apply nth_error_In in H2. pose proof (top_max _ _ _ Ra H2). lia. }
+        destruct (R9 k i Hk Hktop) as [Hin|Hd]; [|exact Hd]. destruct (Hbetween k Hin); lia.
+    + pose proof (topc_max cr n' i' C0 Hn'cr). lia.
+  - apply robj_ok_cursor; [exact Hr| |intros; discriminate].
+    assert (S (ridx r) < nlog r)%nat by (apply nth_error_Some; unfold nlog; congruence). lia.
+Qed.
+
+(* ---- framing --------------------------------------------------------------------------------- *)
+Definition is_line (c : list Z) : Prop := exists p, c = p ++ [10] /\ ~ In 10 p.
+Definition framed (f : fs) (cr : list (name * ino)) : Prop :=
+  forall n i c, In (n, i) cr -> In c (chunks f i) -> is_line c.
+
+Lemma readline_line p rest : ~ In 10 p -> readline ((p ++ [10]) ++ rest) = p ++ [10].
+Proof.
+  induction p as [|x p IH]; intro H; cbn [app readline].
+  - rewrite Z.eqb_refl. reflexivity.
+  - destruct (Z.eqb_spec x 10); [exfalso; apply H; left; exact e|]. rewrite IH; [reflexivity|].
+    intro H'. apply H. right. exact H'.
+Qed.
+
+Lemma readline_nil b : readline b = [] -> b = [].
+Proof. destruct b as [|c b]; [reflexivity|]. cbn. destruct (c =? 10); discriminate. Qed.
+
+(* what one read takes from an open file *)
+Lemma take_data (block : bool) (cs : list (list Z)) t :
+  (forall c, In c cs -> c <> []) -> (block = false -> forall c, In c cs -> is_line c) -> (t <= length cs)%nat ->
+  let rest := concat (skipn t cs) in
+  let data := if block then rest else readline rest in
+  (data = [] /\ t = length cs) \/
+  (data <> [] /\ exists c, (0 < c)%nat /\ (t + c <= length cs)%nat /\ data = concat (firstn c (skipn t cs))).
+Proof.
+  intros Hne Hline Ht. cbn zeta. destruct (skipn t cs) as [|c0 rest'] eqn:Es.
+  - left. assert (t = length cs).
+    { apply (f_equal (@length _)) in Es. rewrite skipn_length in Es. cbn in Es. lia. }
+    split; [destruct block; reflexivity|assumption].
+  - right. assert (Hin0 : In c0 cs) by (apply (In_skipn c0 t cs); rewrite Es; left; reflexivity).
+    assert (Hlen : (t + S (length rest') = length cs)%nat).
+    { apply (f_equal (@length _)) in Es. rewrite skipn_length in Es. cbn in Es. lia. }
+    destruct block.
+    + split.
+      * cbn. intro H. apply app_eq_nil in H as [H _]. apply (Hne c0 Hin0 H).
+      * exists (S (length rest')). split; [lia|]. split; [lia|]. rewrite firstn_all2 by (cbn; lia). reflexivity.
+    + destruct (Hline eq_refl c0 Hin0) as (p & -> & Hp). cbn [concat]. rewrite readline_line by exact Hp. split.
+      * intro H. apply app_eq_nil in H as [_ H]. discriminate.
+      * exists 1%nat. split; [lia|]. split; [lia|]. cbn. rewrite app_nil_r. reflexivity.
+Qed.
+
+Lemma set_ridx_read r j : rf r = RNone -> set_ridx r j = set_read r RNone j.
+Proof. intro H. destruct r; cbn in *; subst; reflexivity. Qed.
+Lemma set_read_same r : rf r = RNone -> set_read r RNone (ridx r) = r.
+Proof. intro H. destruct r; cbn in *; subst; reflexivity. Qed.
+
+Lemma pos_ok_taken_eq f cr grow taken cur t : pos_ok f cr grow taken cur t -> taken cur = t.
+Proof. intros (_ & H & _). exact H. Qed.
+
+Section ReadLoop.
+  Variables (f : fs) (cr : list (name * ino)) (grow : option ino) (block : bool).
+  Hypothesis Hfs : fs_ok f.
+  Hypothesis Hcr : cr_ok f cr.
+  Hypothesis Hgrow : forall g, grow = Some g -> In (topc cr, g) cr.
+  Hypothesis Hframed : block = false -> framed f cr.
+
+  Definition read_post (r0 : rl) (taken : name -> nat) (r' : rl) (d : option (list Z)) : Prop :=
+    robj_ok f cr r' /\ cf r' = cf r0 /\ wf r' = wf r0 /\
+    exists taken' cur' t', at_pos f cr r' cur' t' /\ pos_ok f cr grow taken' cur' t' /\
+      match d with
+      | None => delivered f cr taken' = delivered f cr taken
+      | Some data => exists i c, In (cur', i) cr /\ (0 < c)%nat /\ (c <= t')%nat /\ data <> [] /\
+           data = concat (firstn c (skipn (t' - c) (chunks f i))) /\
+           delivered f cr taken' = delivered f cr taken ++ tag cur' (firstn c (skipn (t' - c) (chunks f i)))
+      end.
+
+  Lemma read_post_same r taken cur t : robj_ok f cr r -> at_pos f cr r cur t -> pos_ok f cr grow taken cur t ->
+    read_post r taken r None.
+  Proof. intros H1 H2 H3. split; [exact H1|]. split; [reflexivity|]. split; [reflexivity|]. exists taken, cur, t. auto. Qed.
+
+  Lemma read_post_cf r0 r1 taken r' d : cf r1 = cf r0 -> wf r1 = wf r0 -> read_post r1 taken r' d -> read_post r0 taken r' d.
+  Proof. intros E1 E2 (A & B & C & D). split; [exact A|]. split; [congruence|]. split; [congruence|exact D]. Qed.
+
+  Lemma read_loop_pos : forall fuel r ar taken cur t,
+    robj_ok f cr r -> at_pos f cr r cur t -> pos_ok f cr grow taken cur t -> c_fixr (cf r) = true ->
+    read_post r taken (fst (read_loop fuel f block r ar (ridx r))) (snd (read_loop fuel f block r ar (ridx r))).
+  Proof.
+    pose proof Hcr as (C0 & Cinj & Cpos & C1 & C2).
+    induction fuel as [|fuel IH]; intros r ar taken cur t Hr Hat Hpos Hfix; cbn [read_loop].
+    { cbn [fst snd]. eapply read_post_same; eauto. }
+    pose proof Hr as (Ra & Rsub & R9 & Rle & R6).
+    pose proof Hat as (Hnc & Hat').
+    destruct (rf r) as [| |i off] eqn:Erf; [|congruence|].
+    - (* no file open *)
+      destruct (nth_error (logfiles r) (ridx r)) as [[n s]|] eqn:En.
+      2:{ cbn [fst snd]. eapply read_post_same; eauto. }
+      destruct Hat' as (-> & ->).
+      assert (Hncr : exists i0, In (n, i0) cr).
+      { assert (Hin : In n (names cr)) by (apply Rsub; apply nth_error_In in En; apply (in_map fst) in En; exact En).
+        unfold names in Hin. apply in_map_iff in Hin as [[m i0] [<- Hin]]. exists i0. exact Hin. }
+      destruct Hncr as [i0 Hncr]. destruct (Cpos n i0 Hncr) as [Hn0 _].
+      destruct (lookup (dir f) n) as [i|] eqn:El.
+      + (* open it *)
+        assert (Hin : In (n, i) cr) by (apply C1; [apply lookup_In; exact El|apply is_log_true; lia]).
+        eapply read_post_cf; [| |apply (IH (set_rf r (ROpen i 0)) ar taken n O)]; try reflexivity.
+        * unfold robj_ok. cbn [logfiles ridx rf set_rf nlog]. repeat (split; [assumption|]).
+          intros j o H. inversion H; subst. exists n, s. split; assumption.
+        * split; [cbn; discriminate|]. cbn [logfiles ridx rf set_rf]. rewrite En. split; [reflexivity|].
+          split; [exact Hin|]. split; [reflexivity|lia].
+        * exact Hpos.
+        * exact Hfix.
+      + (* FileNotFoundError *)
+        assert (Hdead : dead f n) by exact El.
+        assert (Hidx : (ridx r < nlog r)%nat) by (apply nth_error_Some; unfold nlog; congruence).
+        destruct (Nat.leb_spec (nlog (set_ridx r (S (ridx r)))) (S (ridx r))) as [Hlast|Hmore].
+        * (* it was the last known file: now at the end *)
+          change (nlog (set_ridx r (S (ridx r)))) with (nlog r) in Hlast.
+          assert (Htop : top (logfiles r) = n) by (eapply nth_last_top; eauto).
+          set (r1 := set_ridx r (S (ridx r))).
+          assert (Hr1 : robj_ok f cr r1).
+          { unfold r1. rewrite set_ridx_read by exact Erf. apply robj_ok_cursor; [exact Hr|unfold nlog in *; lia|intros; discriminate]. }
+          assert (Hat1 : at_pos f cr r1 (n + 1) O).
+          { split; [cbn; rewrite Erf; discriminate|]. cbn [logfiles ridx rf r1 set_ridx].
+            rewrite (proj2 (nth_error_None (logfiles r) (S (ridx r))) ltac:(unfold nlog in *; lia)).
+            split; [reflexivity|]. split; [exact Erf|]. split; [lia|]. split; [intros k j Hk H1 H2; lia|].
+            intros j Hj. left. rewrite Htop. exact Hdead. }
+          assert (Hpos1 : pos_ok f cr grow taken (n + 1) O).
+          { destruct Hpos as (P1 & P2 & P3 & P4 & P5).
+            split; [|split; [apply P3; lia|split; [intros k Hk; apply P3; lia|split; [|exact P5]]]].
+            - intros k j Hk Hlt. destruct (Z.eq_dec k n) as [->|]; [left; exact Hdead|]. apply (P1 k j Hk). lia.
+            - pose proof (topc_max cr n i0 C0 Hncr). lia. }
+          destruct ar.
+          -- pose proof (refresh_pos f cr grow taken r1 (n + 1) O Hfs Hcr Hr1 Hat1 Hpos1) as Hrp. cbn zeta in Hrp.
+             set (r2 := refresh_logfiles r1 f) in *.
+             destruct Hrp as (Hr2 & Ecf & Ewf & cur2 & t2 & Hat2 & Hpos2 & _ & _).
+             destruct (Nat.leb_spec (nlog r2) (ridx r2)).
+             ++ cbn [fst snd]. split; [exact Hr2|]. split; [exact Ecf|]. split; [exact Ewf|]. exists taken, cur2, t2. auto.
+             ++ eapply read_post_cf; [exact Ecf|exact Ewf|]. apply (IH r2 false taken cur2 t2); auto.
+                rewrite Ecf. exact Hfix.
+          -- cbn [fst snd]. split; [exact Hr1|]. split; [reflexivity|]. split; [reflexivity|]. exists taken, (n + 1), O. auto.
+        * (* try the next one *)
+          change (nlog (set_ridx r (S (ridx r)))) with (nlog r) in Hmore.
+          destruct (nth_error (logfiles r) (S (ridx r))) as [[n' s']|] eqn:En'.
+          2:{ apply nth_error_None in En'. unfold nlog in *. lia. }
+          rewrite (set_ridx_read r (S (ridx r)) Erf).
+          assert (Hpn : pos_ok f cr grow taken n (taken n)) by (rewrite (pos_ok_taken_eq _ _ _ _ _ _ Hpos); exact Hpos).
+          destruct (pass_file f cr grow taken r n s n' s' Hcr Hr Hgrow En En' Hpn (or_introl Hdead)) as (Hat1 & Hpos1 & Hr1).
+          eapply read_post_cf; [| |apply (IH (set_read r RNone (S (ridx r))) ar taken n' O Hr1 Hat1 Hpos1 Hfix)]; reflexivity.
+    - (* a file is open *)
+      destruct (nth_error (logfiles r) (ridx r)) as [[n s]|] eqn:En.
+      2:{ destruct Hat' as (_ & Hx & _). congruence. }
+      destruct Hat' as (-> & Hin & -> & Htle).
+      set (cs := chunks f i) in *.
+      assert (Hrest : read_from f i (bsum t cs) = concat (skipn t cs)) by (unfold read_from, content; apply skipn_concat).
+      rewrite Hrest.
+      assert (Hne : forall c, In c cs -> c <> []) by (intros c Hc; apply (proj2 (proj2 (proj2 Hfs)) i c Hc)).
+      assert (Hline : block = false -> forall c, In c cs -> is_line c).
+      { intros Hb c Hc. apply (Hframed Hb n i c Hin Hc). }
+      destruct (take_data block cs t Hne Hline Htle) as [[Hd Hfull]|(Hd & c & Hc0 & Hcle & Hdata)]; cbn zeta in *.
+      + (* nothing left in this file *)
+        rewrite Hd.
+        assert (Hdone : dead f n \/ exists i1, In (n, i1) cr /\ taken n = length (chunks f i1)).
+        { right. exists i. split; [exact Hin|]. rewrite (pos_ok_taken_eq _ _ _ _ _ _ Hpos). exact Hfull. }
+        assert (Hpn : pos_ok f cr grow taken n (taken n)) by (rewrite (pos_ok_taken_eq _ _ _ _ _ _ Hpos); exact Hpos).
+        destruct (Nat.leb_spec (nlog r) (S (ridx r))) as [Hlast|Hmore].
+        * destruct ar; [|cbn [fst snd]; eapply read_post_same; eauto].
+          pose proof (refresh_pos f cr grow taken r n t Hfs Hcr Hr Hat Hpos) as Hrp. cbn zeta in Hrp.
+          set (r2 := refresh_logfiles r f) in *.
+          destruct Hrp as (Hr2 & Ecf & Ewf & cur2 & t2 & Hat2 & Hpos2 & Hkept & Hrf2).
+          rewrite Ecf, Hfix.
+          destruct (rf r2) as [| |i2 off2] eqn:Erf2.
+          -- (* the file vanished: continue at the index refresh chose *)
+             destruct (Nat.leb_spec (nlog r2) (ridx r2)).
+             ++ cbn [fst snd]. split; [exact Hr2|]. split; [exact Ecf|]. split; [exact Ewf|]. exists taken, cur2, t2. auto.
+             ++ rewrite (set_read_same r2 Erf2).
+                eapply read_post_cf; [exact Ecf|exact Ewf|]. apply (IH r2 false taken cur2 t2); auto. rewrite Ecf. exact Hfix.
+          -- destruct Hat2 as [Hx _]. congruence.
+          -- (* still there *)
+             destruct (Hkept i2 off2 eq_refl) as (_ & -> & ->).
+             destruct (Nat.leb_spec (nlog r2) (S (ridx r2))).
+             ++ cbn [fst snd]. split; [exact Hr2|]. split; [exact Ecf|]. split; [exact Ewf|]. exists taken, n, t. auto.
+             ++ pose proof Hat2 as (_ & Hat2').
+                destruct (nth_error (logfiles r2) (ridx r2)) as [[n2 s2]|] eqn:En2.
+                2:{ destruct Hat2' as (_ & Hx & _). congruence. }
+                destruct Hat2' as (<- & _).
+                destruct (nth_error (logfiles r2) (S (ridx r2))) as [[n' s']|] eqn:En'.
+                2:{ apply nth_error_None in En'. unfold nlog in *. lia. }
+                destruct (pass_file f cr grow taken r2 n s2 n' s' Hcr Hr2 Hgrow En2 En' Hpn Hdone) as (Hat3 & Hpos3 & Hr3).
+                eapply read_post_cf; [exact Ecf|exact Ewf|].
+                eapply read_post_cf; [| |apply (IH (set_read r2 RNone (S (ridx r2))) false taken n' O Hr3 Hat3 Hpos3)]; try reflexivity.
+                cbn. rewrite Ecf. exact Hfix.
+        * destruct (nth_error (logfiles r) (S (ridx r))) as [[n' s']|] eqn:En'.
+          2:{ apply nth_error_None in En'. unfold nlog in *. lia. }
+          destruct (pass_file f cr grow taken r n s n' s' Hcr Hr Hgrow En En' Hpn Hdone) as (Hat1 & Hpos1 & Hr1).
+          eapply read_post_cf; [| |apply (IH (set_read r RNone (S (ridx r))) ar taken n' O Hr1 Hat1 Hpos1 Hfix)]; reflexivity.
+      + (* data *)
+        destruct (if block then concat (skipn t cs) else readline (concat (skipn t cs))) as [|b0 data] eqn:Edata; [congruence|].
+        cbn [fst snd].
+        assert (Ht : taken n = t) by (apply (pos_ok_taken_eq _ _ _ _ _ _ Hpos)).
+        destruct Hpos as (P1 & P2 & P3 & P4 & P5).
+        split.
+        { unfold robj_ok. cbn [logfiles ridx rf set_rf nlog]. repeat (split; [assumption|]).
+          intros j o H. inversion H; subst. exists n, s. split; assumption. }
+        split; [reflexivity|]. split; [reflexivity|].
+        exists (upd taken n (t + c)), n, (t + c)%nat. split; [|split].
+        * split; [cbn; discriminate|]. cbn [logfiles ridx rf set_rf]. rewrite En. split; [reflexivity|].
+          split; [exact Hin|]. split; [|exact Hcle]. rewrite Hdata. apply eq_sym. apply bsum_add. exact Hcle.
+        * split; [|split; [apply upd_same|split; [|split; [exact P4|]]]].
+          -- intros k j Hk Hlt. rewrite upd_other by lia. apply (P1 k j Hk Hlt).
+          -- intros k Hk. rewrite upd_other by lia. apply P3. exact Hk.
+          -- intros k j Hk. destruct (Z.eq_dec k n) as [->|Hne'].
+             ++ rewrite upd_same. rewrite (cr_fun cr n j i C0 Hk Hin). exact Hcle.
+             ++ rewrite upd_other by exact Hne'. apply (P5 k j Hk).
+        * exists i, c. split; [exact Hin|]. split; [exact Hc0|]. split; [lia|]. split; [discriminate|].
+          replace (t + c - c)%nat with t by lia. split; [exact Hdata|].
+          rewrite <- Ht. apply delivered_update; [exact C0|exact Hin|exact P3].
+  Qed.
+End ReadLoop.
+
+Lemma read_raw_pos f cr grow block r taken cur t :
+  fs_ok f -> cr_ok f cr -> (forall g, grow = Some g -> In (topc cr, g) cr) -> (block = false -> framed f cr) ->
+  robj_ok f cr r -> at_pos f cr r cur t -> pos_ok f cr grow taken cur t -> c_fixr (cf r) = true ->
+  read_post f cr grow r taken (fst (read_raw r f block)) (snd (read_raw r f block)).
+Proof.
+  intros Hfs Hcr Hg Hfr Hr Hat Hpos Hfix. unfold read_raw.
+  destruct (Nat.leb_spec (nlog r) (ridx r)).
+  - destruct (c_autorefresh (cf r)); [|cbn [fst snd]; eapply read_post_same; eauto].
+    pose proof (refresh_pos f cr grow taken r cur t Hfs Hcr Hr Hat Hpos) as Hrp. cbn zeta in Hrp.
+    set (r2 := refresh_logfiles r f) in *.
+    destruct Hrp as (Hr2 & Ecf & Ewf & cur2 & t2 & Hat2 & Hpos2 & _ & _).
+    destruct (Nat.leb_spec (nlog r2) (ridx r2)).
+    + cbn [fst snd]. split; [exact Hr2|]. split; [exact Ecf|]. split; [exact Ewf|]. exists taken, cur2, t2. auto.
+    + eapply read_post_cf; [exact Ecf|exact Ewf|]. eapply read_loop_pos; eauto. rewrite Ecf. exact Hfix.
+  - eapply read_loop_pos; eauto.
+Qed.
+
+(* ====================================================================================== *)
+(* positions only depend on the names in the list, the index and the open file              *)
+(* ====================================================================================== *)
+Lemma nth_error_names (L : list (name * Z)) k : nth_error (names L) k = option_map fst (nth_error L k).
+Proof. revert k; induction L as [|e L IH]; intros [|k]; cbn; auto. Qed.
+
+Definition at_pos_n (f : fs) (cr : list (name * ino)) (N : list Z) (tsz : Z) (idx : nat) (x : rfile) (cur : Z) (t : nat) : Prop :=
+  x <> RClosed /\
+  match nth_error N idx with
+  | Some n =>
+      cur = n /\
+      match x with
+      | ROpen i off => In (n, i) cr /\ off = bsum t (chunks f i) /\ (t <= length (chunks f i))%nat
+      | _ => t = O
+      end
+  | None =>
+      t = O /\ x = RNone /\ last N (-1) < cur /\
+      (forall n i, In (n, i) cr -> last N (-1) < n -> n < cur -> dead f n) /\
+      (forall i, In (last N (-1), i) cr -> dead f (last N (-1)) \/ tsz = isize f i)
+  end.
+
+Lemma at_pos_iff f cr r cur t :
+  at_pos f cr r cur t <-> at_pos_n f cr (names (logfiles r)) (top_size (logfiles r)) (ridx r) (rf r) cur t.
+Proof.
+  unfold at_pos, at_pos_n. rewrite nth_error_names, <- top_names.
+  destruct (nth_error (logfiles r) (ridx r)) as [[n s]|]; cbn [option_map fst]; tauto.
+Qed.
+
+Definition robj_ok_n (f : fs) (cr : list (name * ino)) (N : list Z) (idx : nat) (x : rfile) : Prop :=
+  asc N /\
+  (forall n, In n N -> In n (names cr)) /\
+  (forall n i, In (n, i) cr -> n <= last N (-1) -> In n N \/ dead f n) /\
+  (idx <= length N)%nat /\
+  (forall i off, x = ROpen i off -> exists n, nth_error N idx = Some n /\ In (n, i) cr).
+
+Lemma robj_ok_iff f cr r : robj_ok f cr r <-> robj_ok_n f cr (names (logfiles r)) (ridx r) (rf r).
+Proof.
+  assert (Hlen : length (names (logfiles r)) = nlog r) by (unfold names, nlog; apply map_length).
+  unfold robj_ok, robj_ok_n. rewrite <- top_names, Hlen.
+  split; intros (A & B & C & D & E); repeat (split; [assumption|]).
+  - intros i off H. destruct (E i off H) as (n & s & H1 & H2). exists n. split; [|exact H2].
+    rewrite nth_error_names, H1. reflexivity.
+  - intros i off H. destruct (E i off H) as (n & H1 & H2). rewrite nth_error_names in H1.
+    destruct (nth_error (logfiles r) (ridx r)) as [[n' s]|]; [|discriminate]. cbn in H1. inversion H1; subst.
+    exists n, s. split; [reflexivity|exact H2].
+Qed.
+
+(* ====================================================================================== *)
+(* what the rest of the world may do to a standing reader                                   *)
+(* ====================================================================================== *)
+Definition env_step (f : fs) (cr : list (name * ino)) (grow : option ino)
+                    (f' : fs) (cr' : list (name * ino)) (grow' : option ino) : Prop :=
+  (forall n i, In (n, i) cr -> dead f n -> dead f' n) /\
+  (exists extra, cr' = cr ++ extra /\ forall n i, In (n, i) extra -> topc cr < n) /\
+  (forall n i, In (n, i) cr ->
+     chunks f' i = chunks f i \/ (grow = Some i /\ exists x, chunks f' i = chunks f i ++ x)) /\
+  (forall n i, In (n, i) cr -> grow' = Some i -> grow = Some i).
+
+Lemma topc_ge cr n : asc (names cr) -> In n (names cr) -> n <= topc cr.
+Proof. intros Ha H. unfold topc. apply asc_last_max; assumption. Qed.
+
+Lemma topc_app_le (cr extra : list (name * ino)) :
+  (forall n i, In (n, i) extra -> topc cr < n) -> topc cr <= topc (cr ++ extra).
+Proof.
+  intro H. destruct (snoc_cases extra) as [->|(e' & [n i] & ->)]; [rewrite app_nil_r; lia|].
+  rewrite app_assoc. unfold topc at 2. rewrite names_app. cbn [names map fst]. rewrite last_last.
+  specialize (H n i ltac:(apply in_or_app; right; left; reflexivity)). lia.
+Qed.
+
+Lemma topc_ge_m1 (cr : list (name * ino)) : (forall n i, In (n, i) cr -> 0 < n) -> -1 <= topc cr.
+Proof.
+  intro H. unfold topc. destruct cr as [|e cr]; [cbn; lia|].
+  assert (Hl : exists n i, In (n, i) (e :: cr) /\ last (names (e :: cr)) (-1) = n).
+  { assert (Hl : In (last (names (e :: cr)) (-1)) (names (e :: cr))) by (apply last_In; discriminate).
+    apply in_map_iff in Hl as [[n i] [Hn Hin]]. exists n, i. split; [exact Hin|]. symmetry. exact Hn. }
+  destruct Hl as (n & i & Hin & ->). specialize (H n i Hin). lia.
+Qed.
+
+Lemma env_pos f cr grow f' cr' grow' N tsz idx x taken cur t :
+  env_step f cr grow f' cr' grow' -> asc (names cr) -> (forall n i, In (n, i) cr -> 0 < n) ->
+  robj_ok_n f cr N idx x -> at_pos_n f cr N tsz idx x cur t -> pos_ok f cr grow taken cur t ->
+  robj_ok_n f' cr' N idx x /\ at_pos_n f' cr' N tsz idx x cur t /\ pos_ok f' cr' grow' taken cur t /\
+  delivered f' cr' taken = delivered f cr taken.
+Proof.
+  intros (E1 & (extra & -> & E2) & E3 & E4) C0 Cp (Ra & Rsub & R9 & Rle & R6) (Hnc & Hat) (P1 & P2 & P3 & P4 & P5).
+  pose proof (topc_ge_m1 cr Cp) as Htm1.
+  assert (Hsub : forall n i, In (n, i) cr -> In (n, i) (cr ++ extra)) by (intros; apply in_or_app; left; assumption).
+  assert (Hnew : forall n i, In (n, i) extra -> cur <= n /\ ~ In n (names cr)).
+  { intros n i H. specialize (E2 n i H). split; [lia|]. intro Hn. pose proof (topc_ge cr n C0 Hn). lia. }
+  assert (Hchunks : forall n i, In (n, i) cr -> exists y, chunks f' i = chunks f i ++ y).
+  { intros n i H. destruct (E3 n i H) as [->|(_ & y & ->)]; [exists []; rewrite app_nil_r; reflexivity|exists y; reflexivity]. }
+  assert (Ht0 : forall n i, In (n, i) extra -> n = cur -> t = O).
+  { intros n i H ->. destruct (Hnew cur i H) as [_ Hnin].
+    destruct (nth_error N idx) as [m|] eqn:En; [|apply Hat].
+    destruct Hat as [-> _]. exfalso. apply Hnin. apply Rsub. eapply nth_error_In; eauto. }
+  split; [|split; [|split]].
+  - split; [exact Ra|]. split; [intros n Hn; rewrite names_app; apply in_or_app; left; apply Rsub; exact Hn|].
+    split.
+    { intros n i Hin Hle. apply in_app_or in Hin as [Hin|Hin].
+      - destruct (R9 n i Hin Hle) as [H|H]; [left; exact H|right; eapply E1; eauto].
+      - exfalso. destruct (Hnew n i Hin) as [_ Hnin]. specialize (E2 n i Hin).
+        destruct N as [|n0 N']; [cbn in Hle; lia|].
+        assert (Hl : In (last (n0 :: N') (-1)) (n0 :: N')) by (apply last_In; discriminate).
+        apply Rsub in Hl. pose proof (topc_ge cr _ C0 Hl). lia. }
+    split; [exact Rle|]. intros i off Hx. destruct (R6 i off Hx) as (n & H1 & H2). exists n. auto.
+  - split; [exact Hnc|]. destruct (nth_error N idx) as [n|].
+    + destruct Hat as [-> Hat]. split; [reflexivity|]. destruct x as [| |i off]; try exact Hat.
+      destruct Hat as (Hin & -> & Hle). split; [auto|]. destruct (Hchunks n i Hin) as [y ->].
+      split; [symmetry; apply bsum_app; exact Hle|rewrite app_length; lia].
+    + destruct Hat as (-> & Hx & Hlt & Hgap & Hsz). split; [reflexivity|]. split; [exact Hx|]. split; [exact Hlt|].
+      split.
+      * intros n i Hin H1 H2. apply in_app_or in Hin as [Hin|Hin]; [eapply E1; eauto|].
+        destruct (Hnew n i Hin). lia.
+      * intros i Hin. apply in_app_or in Hin as [Hin|Hin].
+        -- destruct (Hsz i Hin) as [Hd|Hs]; [left; eapply E1; eauto|].
+           destruct (P1 _ i Hin Hlt) as [Hd|[_ Hg]]; [left; eapply E1; eauto|right].
+           destruct (E3 _ i Hin) as [Hc|[Hg' _]]; [|congruence]. rewrite Hs. unfold isize, content. rewrite Hc. reflexivity.
+        -- exfalso. destruct (Hnew _ i Hin) as [Hge _]. lia.
+  - split; [|split; [exact P2|split; [exact P3|split]]].
+    + intros n i Hin Hlt. apply in_app_or in Hin as [Hin|Hin]; [|destruct (Hnew n i Hin); lia].
+      destruct (P1 n i Hin Hlt) as [Hd|[Ht Hg]]; [left; eapply E1; eauto|right].
+      destruct (E3 n i Hin) as [->|[Hg' _]]; [|congruence]. split; [exact Ht|]. intro Hg'. apply Hg. eapply E4; eauto.
+    + pose proof (topc_app_le cr extra E2). lia.
+    + intros n i Hin. apply in_app_or in Hin as [Hin|Hin].
+      * destruct (Hchunks n i Hin) as [y ->]. rewrite app_length. specialize (P5 n i Hin). lia.
+      * destruct (Hnew n i Hin) as [Hge _]. destruct (Z.eq_dec n cur) as [->|].
+        -- rewrite P2, (Ht0 cur i Hin eq_refl). lia.
+        -- rewrite P3 by lia. lia.
+  - unfold delivered. rewrite flat_map_app.
+    assert (Hx : flat_map (fun e => tag (fst e) (firstn (taken (fst e)) (chunks f' (snd e)))) extra = []).
+    { apply (delivered_zero f' extra taken). intros n i Hin. destruct (Hnew n i Hin) as [Hge _].
+      destruct (Z.eq_dec n cur) as [->|]; [rewrite P2; eapply Ht0; eauto|apply P3; lia]. }
+    rewrite Hx, app_nil_r. apply (delivered_fs f f' cr taken).
+    intros n i Hin. destruct (Hchunks n i Hin) as [y ->]. apply firstn_app_le. apply (P5 n i Hin).
+Qed.
+
+(* ====================================================================================== *)
+(* the writer's own cursor: the list gains an entry at the end and loses pruned ones        *)
+(* ====================================================================================== *)
+Definition closeopen (x : rfile) : rfile := match x with ROpen _ _ => RNone | y => y end.
+
+Lemma nth_error_skipn {A} (l : list A) n i : nth_error (skipn n l) i = nth_error l (n + i).
+Proof. revert l; induction n as [|n IH]; intro l; [reflexivity|]. destruct l; [destruct i; reflexivity|]. cbn. apply IH. Qed.
+
+Lemma asc_skipn l n : asc l -> asc (skipn n l).
+Proof. intro H. rewrite <- (firstn_skipn n l) in H. apply asc_app in H. tauto. Qed.
+
+Lemma last_skipn (l : list Z) n d : (n < length l)%nat -> last (skipn n l) d = last l d.
+Proof.
+  intro H. rewrite <- (firstn_skipn n l) at 2.
+  assert (Hne : skipn n l <> []) by (intro E; apply (f_equal (@length _)) in E; rewrite skipn_length in E; cbn in E; lia).
+  destruct (snoc_cases (skipn n l)) as [E|(l' & x & E)]; [congruence|]. rewrite E, app_assoc, !last_last. reflexivity.
+Qed.
+
+Lemma asc_first_min (l : list Z) n k : asc l -> nth_error l 0 = Some n -> In k l -> n <= k.
+Proof.
+  intros Ha H Hk. destruct l as [|x l]; [discriminate|]. cbn in H. inversion H; subst.
+  apply asc_cons in Ha as [_ Hb]. rewrite Forall_forall in Hb. destruct Hk as [<-|Hk]; [lia|]. specialize (Hb k Hk). lia.
+Qed.
+
+Lemma asc_nth_lt (l : list Z) a b x y : asc l -> nth_error l a = Some x -> nth_error l b = Some y -> (a < b)%nat -> x < y.
+Proof.
+  revert a b. induction l as [|z l IH]; intros a b Ha H1 H2 Hab; [destruct a; discriminate|].
+  apply asc_cons in Ha as [Ha Hb]. rewrite Forall_forall in Hb.
+  destruct a as [|a], b as [|b]; try lia.
+  - cbn in H1. inversion H1; subst. cbn in H2. apply Hb. eapply nth_error_In; eauto.
+  - cbn in H1, H2. apply (IH a b); auto. lia.
+Qed.
+
+Lemma reshape_pos f cr grow taken N tsz tsz' idx x cur t ex nd :
+  asc (names cr) -> (forall n i, In (n, i) cr -> 0 < n) ->
+  robj_ok_n f cr N idx x -> at_pos_n f cr N tsz idx x cur t -> pos_ok f cr grow taken cur t ->
+  (forall i, In (last (skipn nd (N ++ ex)) (-1), i) cr -> dead f (last (skipn nd (N ++ ex)) (-1)) \/ tsz' = isize f i) ->
+  (ex = [] \/ exists nm, ex = [nm]) -> asc (N ++ ex) ->
+  (forall n, In n ex -> In n (names cr) /\ ~ dead f n) ->
+  (nd < length (N ++ ex))%nat \/ (N ++ ex = [] /\ nd = O) ->
+  (forall n, In n (firstn nd (N ++ ex)) -> dead f n) ->
+  (forall n i, In (n, i) cr -> ~ dead f n -> In n (skipn nd (N ++ ex))) ->
+  let N' := skipn nd (N ++ ex) in
+  let idx' := if (nd <=? idx)%nat then (idx - nd)%nat else O in
+  let x' := if (nd <=? idx)%nat then x else closeopen x in
+  robj_ok_n f cr N' idx' x' /\ exists cur' t', at_pos_n f cr N' tsz' idx' x' cur' t' /\ pos_ok f cr grow taken cur' t'.
+Proof.
+  intros C0 Cp (Ra & Rsub & R9 & Rle & R6) (Hnc & Hat) Hpos Hsz' Hex Hasc Hexcr Hnd Hdead Halive. cbn zeta.
+  pose proof Hpos as (P1 & P2 & P3 & P4 & P5).
+  set (N1 := N ++ ex) in *. set (N' := skipn nd N1).
+  assert (HN1cr : forall n, In n N1 -> In n (names cr)).
+  { intros n H. apply in_app_or in H as [H|H]; [auto|apply Hexcr; exact H]. }
+  assert (HN'sub : forall n, In n N' -> In n N1) by (intros n H; eapply In_skipn; eauto).
+  assert (Hdec : forall n, dead f n \/ ~ dead f n) by (intro n; unfold dead; destruct (lookup (dir f) n); [right; discriminate|left; reflexivity]).
+  assert (Hcr_in : forall n, In n (names cr) -> exists i, In (n, i) cr).
+  { intros n H. unfold names in H. apply in_map_iff in H as [[m i] [<- H]]. exists i. exact H. }
+  assert (Hcr_pos : forall n, In n (names cr) -> 0 < n /\ n <= topc cr).
+  { intros n H. destruct (Hcr_in n H) as [i Hi]. split; [eapply Cp; eauto|eapply topc_max; eauto]. }
+  assert (Hrobj : forall idx' x', (idx' <= length N')%nat ->
+             (forall i off, x' = ROpen i off -> exists n, nth_error N' idx' = Some n /\ In (n, i) cr) ->
+             robj_ok_n f cr N' idx' x').
+  { intros idx' x' H1 H2. split; [apply asc_skipn; exact Hasc|]. split; [intros n Hn; auto|].
+    split; [|split; assumption]. intros n i Hin _. destruct (Hdec n) as [Hd|Hd]; [right; exact Hd|left; eapply Halive; eauto]. }
+  assert (HlenN' : length N' = (length N1 - nd)%nat) by (unfold N'; apply skipn_length).
+  assert (HlenN1 : length N1 = (length N + length ex)%nat) by (unfold N1; apply app_length).
+  destruct (Nat.leb_spec nd idx) as [Hle|Hgt].
+  - (* the cursor is at or after the first surviving entry *)
+    assert (Hnth : nth_error N' (idx - nd) = nth_error N1 idx).
+    { unfold N'. rewrite nth_error_skipn. f_equal. lia. }
+    destruct (nth_error N idx) as [n|] eqn:En.
+    + (* standing at a file: unchanged *)
+      assert (En1 : nth_error N1 idx = Some n) by (unfold N1; rewrite nth_error_app1; [exact En|apply nth_error_Some; congruence]).
+      split.
+      { apply Hrobj; [assert (idx < length N)%nat by (apply nth_error_Some; congruence); lia|].
+        intros i off Hx. destruct (R6 i off Hx) as (m & H1 & H2). exists m. rewrite Hnth, En1. auto. }
+      exists cur, t. split; [|exact Hpos]. split; [exact Hnc|]. rewrite Hnth, En1. exact Hat.
+    + (* at the end of the old list *)
+      destruct Hat as (-> & Hx & Hlt & Hgap & Hsz). apply nth_error_None in En. assert (idx = length N) by lia. subst idx.
+      destruct Hex as [->|[nm ->]].
+      * (* nothing appended: still at the end *)
+        unfold N', N1 in *. rewrite app_nil_r in *.
+        split; [apply Hrobj; [lia|intros i off H; congruence]|].
+        exists cur, O. split; [|exact Hpos]. split; [exact Hnc|].
+        rewrite Hnth. rewrite (proj2 (nth_error_None N (length N)) ltac:(lia)).
+        assert (Hlast : last (skipn nd N) (-1) = last N (-1)).
+        { destruct Hnd as [Hnd|[HN ->]]; [apply last_skipn; exact Hnd|reflexivity]. }
+        rewrite Hlast in *. auto.
+      * (* the new file is the next one to read *)
+        assert (En1 : nth_error N1 (length N) = Some nm) by (unfold N1; apply nth_error_split).
+        destruct (Hexcr nm (or_introl eq_refl)) as [Hnmcr Hnmalive].
+        destruct (Hcr_in nm Hnmcr) as [inm Hnm]. destruct (Hcr_pos nm Hnmcr) as [Hnm0 Hnmtop].
+        assert (HlastN : forall k, In k N -> k <= last N (-1)) by (intros k Hk; apply asc_last_max; assumption).
+        assert (Hnmgt : last N (-1) < nm).
+        { destruct N as [|n0 N0]; [cbn; lia|].
+          unfold N1 in Hasc. apply asc_app in Hasc as (_ & _ & H). apply H; [apply last_In; discriminate|left; reflexivity]. }
+        assert (Hcurle : cur <= nm).
+        { destruct (Z.le_gt_cases cur nm); [assumption|]. exfalso. apply Hnmalive. apply (Hgap nm inm Hnm); lia. }
+        split; [apply Hrobj; [cbn in HlenN1; lia|intros i off H; congruence]|].
+        exists nm, O. split.
+        -- split; [exact Hnc|]. rewrite Hnth, En1. split; [reflexivity|]. rewrite Hx. reflexivity.
+        -- split; [|split; [|split; [intros k Hk; apply P3; lia|split; [lia|exact P5]]]].
+           ++ intros k i Hk Hklt. destruct (Z.lt_ge_cases k cur) as [Hc|Hc]; [apply (P1 k i Hk Hc)|]. left.
+              destruct (Hdec k) as [Hd|Hd]; [exact Hd|]. exfalso.
+              apply (Halive k i Hk) in Hd. apply HN'sub in Hd. unfold N1 in Hd. apply in_app_or in Hd as [Hd|[Hd|[]]]; [|lia].
+              specialize (HlastN k Hd). lia.
+           ++ destruct (Z.eq_dec nm cur) as [->|]; [exact P2|apply P3; lia].
+  - (* the file under the cursor was pruned: start again at the oldest survivor *)
+    assert (Hndlt : (nd < length N1)%nat) by (destruct Hnd as [H|[_ H]]; [exact H|lia]).
+    assert (Hidx : (idx < length N)%nat).
+    { destruct Hex as [->|[nm ->]]; cbn in HlenN1; lia. }
+    destruct (nth_error N idx) as [n0|] eqn:En; [|apply nth_error_None in En; lia].
+    destruct Hat as [-> Hat].
+    assert (En1 : nth_error N1 idx = Some n0) by (unfold N1; rewrite nth_error_app1; [exact En|exact Hidx]).
+    assert (Hd0 : dead f n0).
+    { apply Hdead. rewrite <- (firstn_skipn nd N1) in En1. rewrite nth_error_app1 in En1 by (rewrite firstn_length; lia).
+      eapply nth_error_In; eauto. }
+    destruct (nth_error N1 nd) as [n1|] eqn:En1'; [|apply nth_error_None in En1'; lia].
+    assert (Hn1 : nth_error N' 0 = Some n1) by (unfold N'; rewrite nth_error_skipn, Nat.add_0_r; exact En1').
+    assert (Hlt01 : n0 < n1) by (eapply (asc_nth_lt N1 idx nd); eauto).
+    assert (Hn1cr : In n1 (names cr)) by (apply HN1cr; eapply nth_error_In; eauto).
+    destruct (Hcr_pos n1 Hn1cr) as [_ Hn1top].
+    assert (Hx' : closeopen x <> RClosed /\ (forall i off, closeopen x <> ROpen i off)).
+    { destruct x; cbn; split; try congruence; intros; discriminate. }
+    split; [apply Hrobj; [lia|intros i off H; exfalso; eapply (proj2 Hx'); eauto]|].
+    exists n1, O. split.
+    + split; [apply Hx'|]. rewrite Hn1. split; [reflexivity|]. destruct x; cbn; reflexivity.
+    + split; [|split; [apply P3; lia|split; [intros k Hk; apply P3; lia|split; [lia|exact P5]]]].
+      intros k i Hk Hklt. destruct (Z.lt_trichotomy k n0) as [Hc|[->|Hc]]; [apply (P1 k i Hk Hc)|left; exact Hd0|]. left.
+      destruct (Hdec k) as [Hd|Hd]; [exact Hd|]. exfalso. apply (Halive k i Hk) in Hd.
+      pose proof (asc_first_min N' n1 k (asc_skipn N1 nd Hasc) Hn1 Hd). lia.
+Qed.
+
+Lemma names_skipn {B} (l : list (Z * B)) n : names (skipn n l) = skipn n (names l).
+Proof. revert l; induction n as [|n IH]; intro l; [reflexivity|]. destruct l; [reflexivity|]. cbn. apply IH. Qed.
+Lemma names_firstn {B} (l : list (Z * B)) n : names (firstn n l) = firstn n (names l).
+Proof. revert l; induction n as [|n IH]; intro l; [reflexivity|]. destruct l; [reflexivity|]. cbn. f_equal. apply IH. Qed.
+
+Lemma names_bump_last l d : names (bump_last l d) = names l.
+Proof.
+  destruct (snoc_cases l) as [->|(l' & [n s] & ->)]; [reflexivity|].
+  rewrite bump_last_snoc. apply names_app_single.
+Qed.
+
+Lemma prune_r_cursor r :
+  ridx (prune_r r) = (if (ndel r <=? ridx r)%nat then (ridx r - ndel r)%nat else O) /\
+  rf (prune_r r) = (if (ndel r <=? ridx r)%nat then rf r else closeopen (rf r)).
+Proof.
+  unfold prune_r. destruct (ndel r) as [|n] eqn:E.
+  - cbn. split; [lia|reflexivity].
+  - destruct (S n <=? ridx r)%nat eqn:El; cbn; split; try reflexivity. unfold closeopen. destruct (rf r); reflexivity.
+Qed.
+
+Lemma write_shape f r ts now p :
+  asc (names (dir f)) -> wf r <> WClosed -> (logfiles r <> [] \/ wf r = WNone) ->
+  let '(r', f', e) := write r f ts now p in
+  exists ex nd,
+    (ex = [] /\ (exists i, wf r = WOpen i) \/ ex = [new_name r (match ts with Some t => t | None => now end)] /\ wf r = WNone) /\
+    names (logfiles r') = skipn nd (names (logfiles r) ++ ex) /\
+    (nd < length (names (logfiles r) ++ ex))%nat /\
+    ridx r' = (if (nd <=? ridx r)%nat then (ridx r - nd)%nat else O) /\
+    rf r' = (if (nd <=? ridx r)%nat then rf r else closeopen (rf r)) /\
+    (forall n, In n (firstn nd (names (logfiles r) ++ ex)) -> dead f' n) /\
+    cf r' = cf r.
+Proof.
+  intros Ha Hc Hne. unfold write.
+  set (stamp := match ts with Some t => t | None => now end).
+  set (data := serialize (c_mode (cf r)) (mk_payload p)).
+  assert (H1 : exists ex r1 f1 i, write_open r f stamp = (r1, f1, i) /\
+             (ex = [] /\ (exists i, wf r = WOpen i) \/ ex = [new_name r stamp] /\ wf r = WNone) /\
+             names (logfiles r1) = names (logfiles r) ++ ex /\ logfiles r1 <> [] /\
+             ridx r1 = ridx r /\ rf r1 = rf r /\ cf r1 = cf r /\ asc (names (dir f1))).
+  { unfold write_open. destruct (wf r) as [| |i] eqn:Ewf; [|congruence|].
+    - destruct (create_trunc f (new_name r stamp)) as [f1 i] eqn:Ec.
+      exists [new_name r stamp], (set_wf (set_logfiles r (logfiles r ++ [(new_name r stamp, 0)]) (lsize r)) (WOpen i)), f1, i.
+      split; [reflexivity|]. split; [right; auto|]. cbn [logfiles set_wf set_logfiles ridx rf cf].
+      split; [rewrite names_app; reflexivity|]. split; [intro H; destruct (logfiles r); discriminate|].
+      repeat (split; [reflexivity|]).
+      unfold create_trunc in Ec. destruct (lookup (dir f) (new_name r stamp)); inversion Ec; subst; cbn [dir]; [exact Ha|apply asc_insert; exact Ha].
+    - exists [], r, f, i. split; [reflexivity|]. split; [left; split; [reflexivity|eauto]|]. rewrite app_nil_r.
+      split; [reflexivity|]. split; [destruct Hne as [H|H]; [exact H|discriminate]|]. auto. }
+  destruct H1 as (ex & r1 & f1 & i & E1 & Hex & N1 & Hne1 & I1 & X1 & C1 & A1).
+  destruct (wf r) as [| |i0] eqn:Ewf; [|congruence|]; rewrite E1; clear E1;
+  (unfold write_put;
+   set (r2 := set_logfiles r1 (bump_last (logfiles r1) (zlen data)) (lsize r1 + zlen data));
+   set (f2 := append f1 i data);
+   assert (N2 : names (logfiles r2) = names (logfiles r) ++ ex) by (unfold r2; cbn [logfiles set_logfiles]; rewrite names_bump_last; exact N1);
+   assert (Hne2 : logfiles r2 <> []) by (intro H; apply (f_equal names) in H; rewrite N2 in H; rewrite <- N1 in H; destruct (logfiles r1); [congruence|discriminate]);
+   assert (A2 : asc (names (dir f2))) by (unfold f2; rewrite append_dir; exact A1);
+   unfold write_finish;
+   destruct (c_total_size (cf r2) <? lsize r2);
+   [ rewrite prune_eq; destruct (prune_r_fields r2) as (Pl & _ & Pc & _); destruct (prune_r_cursor r2) as (Pi & Px);
+     exists ex, (ndel r2);
+     split; [exact Hex|];
+     split; [match goal with |- names (logfiles (if ?b then _ else _)) = _ => destruct b end; cbn [logfiles set_wf]; rewrite Pl, names_skipn, N2; reflexivity|];
+     split; [rewrite <- N2; unfold names; rewrite map_length; apply ndel_lt; exact Hne2|];
+     split; [match goal with |- ridx (if ?b then _ else _) = _ => destruct b end; cbn [ridx set_wf]; rewrite Pi; unfold r2; cbn [ridx set_logfiles]; rewrite I1; reflexivity|];
+     split; [match goal with |- rf (if ?b then _ else _) = _ => destruct b end; cbn [rf set_wf]; rewrite Px; unfold r2; cbn [ridx rf set_logfiles]; rewrite I1, X1; reflexivity|];
+     split; [|match goal with |- cf (if ?b then _ else _) = _ => destruct b end; cbn [cf set_wf]; rewrite Pc; unfold r2; cbn [cf set_logfiles]; exact C1];
+     intros n Hn; rewrite <- N2, <- names_firstn in Hn; apply lookup_None; intro Hin;
+     unfold names in Hin; apply in_map_iff in Hin as [[m j] [Hm Hin]]; cbn in Hm; subst m;
+     apply In_unlink_all in Hin; [|exact A2]; destruct Hin as [_ Hin]; apply Hin; apply names_rev; exact Hn
+   | exists ex, O;
+     split; [exact Hex|];
+     split; [match goal with |- names (logfiles (if ?b then _ else _)) = _ => destruct b end; cbn [logfiles set_wf skipn]; exact N2|];
+     split; [rewrite <- N2; unfold names; rewrite map_length; destruct (logfiles r2); [congruence|cbn; lia]|];
+     split; [match goal with |- ridx (if ?b then _ else _) = _ => destruct b end; cbn [ridx set_wf]; unfold r2; cbn [ridx set_logfiles]; rewrite I1; cbn; lia|];
+     split; [match goal with |- rf (if ?b then _ else _) = _ => destruct b end; cbn [rf set_wf]; unfold r2; cbn [rf set_logfiles]; rewrite X1; reflexivity|];
+     split; [intros n []|match goal with |- cf (if ?b then _ else _) = _ => destruct b end; cbn [cf set_wf]; unfold r2; cbn [cf set_logfiles]; exact C1] ]).
+Qed.
+
+(* the object-free half of env_pos (for a position that is only remembered, e.g. in the head file) *)
+Lemma env_pos_ok f cr grow f' cr' grow' taken cur t :
+  env_step f cr grow f' cr' grow' -> asc (names cr) -> (forall n i, In (n, i) cr -> 0 < n) ->
+  pos_ok f cr grow taken cur t -> (~ In cur (names cr) -> t = O) ->
+  pos_ok f' cr' grow' taken cur t /\ delivered f' cr' taken = delivered f cr taken.
+Proof.
+  intros (E1 & (extra & -> & E2) & E3 & E4) C0 Cp (P1 & P2 & P3 & P4 & P5) Hcur0.
+  assert (Hnew : forall n i, In (n, i) extra -> cur <= n /\ ~ In n (names cr)).
+  { intros n i H. specialize (E2 n i H). split; [lia|]. intro Hn. pose proof (topc_ge cr n C0 Hn). lia. }
+  assert (Hchunks : forall n i, In (n, i) cr -> exists y, chunks f' i = chunks f i ++ y).
+  { intros n i H. destruct (E3 n i H) as [->|(_ & y & ->)]; [exists []; rewrite app_nil_r; reflexivity|exists y; reflexivity]. }
+  assert (Ht0 : forall n i, In (n, i) extra -> n = cur -> t = O).
+  { intros n i H ->. apply Hcur0. apply (Hnew cur i H). }
+  split.
+  - split; [|split; [exact P2|split; [exact P3|split]]].
+    + intros n i Hin Hlt. apply in_app_or in Hin as [Hin|Hin]; [|destruct (Hnew n i Hin); lia].
+      destruct (P1 n i Hin Hlt) as [Hd|[Ht Hg]]; [left; eapply E1; eauto|right].
+      destruct (E3 n i Hin) as [->|[Hg' _]]; [|congruence]. split; [exact Ht|]. intro Hg'. apply Hg. eapply E4; eauto.
+    + pose proof (topc_app_le cr extra E2). lia.
+    + intros n i Hin. apply in_app_or in Hin as [Hin|Hin].
+      * destruct (Hchunks n i Hin) as [y ->]. rewrite app_length. specialize (P5 n i Hin). lia.
+      * destruct (Hnew n i Hin) as [Hge _]. destruct (Z.eq_dec n cur) as [->|].
+        -- rewrite P2, (Ht0 cur i Hin eq_refl). lia.
+        -- rewrite P3 by lia. lia.
+  - unfold delivered. rewrite flat_map_app.
+    assert (Hx : flat_map (fun e => tag (fst e) (firstn (taken (fst e)) (chunks f' (snd e)))) extra = []).
+    { apply (delivered_zero f' extra taken). intros n i Hin. destruct (Hnew n i Hin) as [Hge _].
+      destruct (Z.eq_dec n cur) as [->|]; [rewrite P2; eapply Ht0; eauto|apply P3; lia]. }
+    rewrite Hx, app_nil_r. apply (delivered_fs f f' cr taken).
+    intros n i Hin. destruct (Hchunks n i Hin) as [y ->]. apply firstn_app_le. apply (P5 n i Hin).
+Qed.
+
+Lemma env_refl f cr grow : env_step f cr grow f cr grow.
+Proof.
+  split; [auto|]. split; [exists []; split; [rewrite app_nil_r; reflexivity|intros n i []]|]. split; [auto|auto].
+Qed.
+
+(* ====================================================================================== *)
+(* seek                                                                                     *)
+(* ====================================================================================== *)
+Lemma close_read_robj f cr r : robj_ok f cr r -> robj_ok f cr (close_read r) /\ (rf (close_read r) = RNone \/ rf (close_read r) = RClosed).
+Proof.
+  intros Hr. pose proof Hr as (Ra & Rsub & R9 & Rle & R6). unfold close_read. destruct (rf r) as [| |i off] eqn:E.
+  - split; [exact Hr|left; exact E].
+  - split; [exact Hr|right; exact E].
+  - split; [|left; reflexivity]. unfold robj_ok. cbn. repeat (split; [assumption|]). intros; discriminate.
+Qed.
+
+Lemma seek_find_spec f (L : list (name * Z)) n : forall k,
+  let '(i, oj) := seek_find f L k n in
+  (k <= i <= k + length L)%nat /\
+  (forall j, oj = Some j -> exists s, nth_error L (i - k) = Some (n, s) /\ lookup (dir f) n = Some j).
+Proof.
+  induction L as [|[m s] L IH]; intro k; cbn [seek_find].
+  - split; [cbn; lia|intros; discriminate].
+  - destruct (n <? m); [split; [cbn; lia|intros; discriminate]|].
+    destruct (Z.eqb_spec m n) as [->|Hne].
+    + destruct (lookup (dir f) n) as [j|] eqn:El.
+      * split; [cbn; lia|]. intros j' H. inversion H; subst. exists s. rewrite Nat.sub_diag. split; reflexivity.
+      * split; [cbn; lia|intros; discriminate].
+    + specialize (IH (S k)). destruct (seek_find f L (S k) n) as [i oj]. destruct IH as [H1 H2].
+      split; [cbn [length]; lia|]. intros j Hj. destruct (H2 j Hj) as (s' & Hs & Hl). exists s'. split; [|exact Hl].
+      replace (i - k)%nat with (S (i - S k)) by lia. exact Hs.
+Qed.
+
+Lemma seek_robj_ok f cr r p : cr_ok f cr -> robj_ok f cr r -> robj_ok f cr (fst (seek r f p)).
+Proof.
+  intros Hcr Hr. pose proof Hcr as (C0 & Cinj & Cpos & C1 & C2). unfold seek.
+  destruct (rf r) as [| |ri ro] eqn:Erf; [|exact Hr|];
+  (destruct (close_read_robj f cr r Hr) as [Hr1 Hrf1]; pose proof Hr1 as (Ra & Rsub & R9 & Rle & R6);
+   assert (Hset : forall j, (j <= nlog (close_read r))%nat -> robj_ok f cr (set_ridx (close_read r) j));
+   [intros j Hj; unfold robj_ok; cbn [logfiles ridx rf set_ridx nlog]; repeat (split; [assumption|]);
+    intros i0 off0 H0; destruct Hrf1 as [E|E]; rewrite E in H0; discriminate|];
+   destruct p as [| |n po]; [apply Hset; lia|apply Hset; lia|];
+   destruct (n <? 0); [exact Hr1|];
+   pose proof (seek_find_spec f (logfiles (close_read r)) n O) as Hs;
+   destruct (seek_find f (logfiles (close_read r)) 0 n) as [i oj]; destruct Hs as [Hi Hoj];
+   destruct oj as [j|]; [|apply Hset; unfold nlog; lia];
+   cbn [fst]; destruct (Hoj j eq_refl) as (s & Hnth & Hl); rewrite Nat.sub_0_r in Hnth;
+   apply robj_ok_cursor; [exact Hr1|unfold nlog; lia|];
+   intros i1 off1 H1; inversion H1; subst; exists n, s; split; [exact Hnth|];
+   apply C1; [apply lookup_In; exact Hl|];
+   assert (Hin : In n (names cr)) by (apply Rsub; apply nth_error_In in Hnth; apply (in_map fst) in Hnth; exact Hnth);
+   unfold names in Hin; apply in_map_iff in Hin as [[m i2] [Hm Hin]]; cbn in Hm; subst m;
+   apply is_log_true; destruct (Cpos n i2 Hin); lia).
+Qed.
+
+Lemma first_newer_le (L : list (name * Z)) ts : forall k, (first_newer L k ts <= k + length L)%nat.
+Proof.
+  induction L as [|[n s] L IH]; intro k; cbn [first_newer length]; [lia|].
+  destruct (ts <? n); [lia|]. specialize (IH (S k)). lia.
+Qed.
+
+Lemma seek_block_robj_ok f cr r ts : robj_ok f cr r -> robj_ok f cr (fst (seek_block r ts)).
+Proof.
+  intro Hr. unfold seek_block. destruct (rf r) as [| |ri ro] eqn:Erf; [|exact Hr|];
+  (destruct (close_read_robj f cr r Hr) as [Hr1 Hrf1]; pose proof Hr1 as (Ra & Rsub & R9 & Rle & R6);
+   cbn [fst]; unfold robj_ok; cbn [logfiles ridx rf set_ridx];
+   split; [exact Ra|]; split; [exact Rsub|]; split; [exact R9|];
+   split; [pose proof (first_newer_le (logfiles (close_read r)) ts O) as Hfn; unfold nlog; cbn [logfiles set_ridx];
+           destruct (first_newer (logfiles (close_read r)) 0 ts); cbn [Nat.pred]; lia|];
+   intros i0 off0 H0; destruct Hrf1 as [E|E]; rewrite E in H0; discriminate).
+Qed.
+
+Lemma seek_start_pos f cr grow r : cr_ok f cr -> robj_ok f cr r -> rf r <> RClosed ->
+  let r' := fst (seek r f PStart) in
+  robj_ok f cr r' /\ exists cur, -1 < cur /\ at_pos f cr r' cur O /\ pos_ok f cr grow (fun _ => O) cur O /\
+  delivered f cr (fun _ => O) = [].
+Proof.
+  intros Hcr Hr Hnc. pose proof Hcr as (C0 & Cinj & Cpos & C1 & C2). cbn zeta.
+  pose proof (seek_robj_ok f cr r PStart Hcr Hr) as Hr'.
+  split; [exact Hr'|].
+  assert (E : fst (seek r f PStart) = set_ridx (close_read r) O) by (unfold seek; destruct (rf r); [reflexivity|congruence|reflexivity]).
+  rewrite E in *. clear E.
+  assert (Hrf : rf (close_read r) = RNone) by (unfold close_read; destruct (rf r) eqn:E; [exact E|congruence|reflexivity]).
+  assert (Hl : logfiles (close_read r) = logfiles r) by apply close_read_fields.
+  pose proof Hr as (Ra & Rsub & R9 & Rle & R6).
+  assert (Htm1 : -1 <= topc cr) by (apply topc_ge_m1; intros n i H; apply (Cpos n i H)).
+  set (cur := match logfiles r with [] => 0 | (n, _) :: _ => n end).
+  exists cur. split; [|split; [|split; [|apply delivered_zero; auto]]].
+  - unfold cur. destruct (logfiles r) as [|[n s] L] eqn:EL; [lia|].
+    assert (Hin : In n (names cr)) by (apply Rsub; left; reflexivity).
+    unfold names in Hin. apply in_map_iff in Hin as [[m i] [Hm Hin]]. cbn in Hm. subst m. destruct (Cpos n i Hin). lia.
+  - split; [cbn; rewrite Hrf; discriminate|]. cbn [logfiles ridx rf set_ridx]. rewrite Hl, Hrf.
+    destruct (logfiles r) as [|[n s] L] eqn:EL; cbn [nth_error].
+    + split; [reflexivity|]. split; [reflexivity|]. split; [cbn; lia|].
+      split; [intros k i Hk H1 H2; destruct (Cpos k i Hk); unfold cur in H2; lia|].
+      intros i Hi. cbn in Hi. destruct (Cpos _ _ Hi). lia.
+    + split; reflexivity.
+  - split; [|split; [reflexivity|split; [auto|split; [|intros; lia]]]].
+    + intros k i Hk Hlt. left. destruct (logfiles r) as [|[n s] L] eqn:EL.
+      * unfold cur in Hlt. destruct (Cpos k i Hk). lia.
+      * unfold cur in Hlt. assert (Hktop : k <= top ((n, s) :: L)).
+        { pose proof (top_max ((n, s) :: L) n s Ra (or_introl eq_refl)). lia. }
+        destruct (R9 k i Hk Hktop) as [Hin|Hd]; [|exact Hd]. exfalso.
+        pose proof (nth_first_min ((n, s) :: L) n s k Ra eq_refl Hin). lia.
+    + destruct (logfiles r) as [|[n s] L] eqn:EL; unfold cur; [lia|].
+      assert (Hin : In n (names cr)) by (apply Rsub; left; reflexivity).
+      pose proof (topc_ge cr n C0 Hin). lia.
+Qed.
+
+(* ---- counting chunks --------------------------------------------------------------------- *)
+Fixpoint cnt (cs : list (list Z)) (off : Z) : nat :=
+  match cs with
+  | [] => O
+  | c :: t => if zlen c <=? off then S (cnt t (off - zlen c)) else O
+  end.
+
+Lemma cnt_bsum cs : (forall c, In c cs -> c <> []) -> forall t, (t <= length cs)%nat -> cnt cs (bsum t cs) = t.
+Proof.
+  induction cs as [|c cs IH]; intros Hne t Ht; [destruct t; [reflexivity|cbn in Ht; lia]|].
+  assert (Hc : 0 < zlen c).
+  { unfold zlen. destruct c; [exfalso; apply (Hne []); [left; reflexivity|reflexivity]|cbn; lia]. }
+  destruct t as [|t]; cbn [cnt].
+  - rewrite bsum_0. destruct (Z.leb_spec (zlen c) 0); [lia|reflexivity].
+  - unfold bsum. cbn [firstn concat]. rewrite zlen_app. fold (bsum t cs).
+    pose proof (zlen_nonneg (concat (firstn t cs))) as Hnn. fold (bsum t cs) in Hnn.
+    destruct (Z.leb_spec (zlen c) (zlen c + bsum t cs)); [|lia].
+    replace (zlen c + bsum t cs - zlen c) with (bsum t cs) by lia. rewrite IH; [reflexivity| |cbn in Ht; lia].
+    intros c' Hc'. apply Hne. right. exact Hc'.
+Qed.
+
+Definition cut (cs : list (list Z)) (off' : Z) (data : list Z) : list (list Z) :=
+  let t' := cnt cs off' in let t := cnt cs (off' - zlen data) in firstn (t' - t) (skipn t cs).
+
+Lemma cut_spec cs t' c : (forall x, In x cs -> x <> []) -> (t' <= length cs)%nat -> (c <= t')%nat ->
+  cut cs (bsum t' cs) (concat (firstn c (skipn (t' - c) cs))) = firstn c (skipn (t' - c) cs).
+Proof.
+  intros Hne Ht Hc. unfold cut.
+  assert (E : bsum t' cs - zlen (concat (firstn c (skipn (t' - c) cs))) = bsum (t' - c) cs).
+  { pose proof (bsum_add (t' - c) c cs ltac:(lia)) as H. replace (t' - c + c)%nat with t' in H by lia. lia. }
+  rewrite E, !cnt_bsum by (auto; lia). replace (t' - (t' - c))%nat with c by lia. reflexivity.
+Qed.
+
+(* ====================================================================================== *)
+(* a saved position and where a restarted reader resumes                                    *)
+(* ====================================================================================== *)
+Definition restrict (g : name -> nat) (m : Z) : name -> nat := fun k => if k <=? m then g k else O.
+
+Lemma delivered_filter f cr g m :
+  delivered f cr (restrict g m) = filter (fun e => fst e <=? m) (delivered f cr g).
+Proof.
+  unfold delivered. induction cr as [|[n i] cr IH]; [reflexivity|]. cbn [flat_map fst snd].
+  rewrite filter_app, IH. f_equal. unfold restrict. destruct (Z.leb_spec n m).
+  - unfold tag. induction (firstn (g n) (chunks f i)) as [|c l IHl]; [reflexivity|]. cbn [map filter fst].
+    destruct (Z.leb_spec n m); [|lia]. f_equal. exact IHl.
+  - cbn [firstn tag map]. unfold tag. induction (firstn (g n) (chunks f i)) as [|c l IHl]; [reflexivity|]. cbn [map filter fst].
+    destruct (Z.leb_spec n m); [lia|]. exact IHl.
+Qed.
+
+(* the logical position (cur, t) a position value [p] (as returned by tell) stands for *)
+Definition pden (f : fs) (cr : list (name * ino)) (grow : option ino) (p : pos) (cur : Z) (t : nat) : Prop :=
+  match p with
+  | PStart => t = O /\ -1 < cur /\ forall k i, In (k, i) cr -> k < cur -> dead f k
+  | PAt n (Some off) =>
+      exists i, In (n, i) cr /\
+        ((cur = n /\ off = bsum t (chunks f i) /\ (t <= length (chunks f i))%nat) \/
+         (n < cur /\ t = O /\ (forall k j, In (k, j) cr -> n < k -> k < cur -> dead f k) /\
+          (dead f n \/ (off = isize f i /\ grow <> Some i))))
+  | _ => False
+  end.
+
+Definition pos_name (p : pos) : Z := match p with PAt n _ => n | _ => -1 end.
+
+Lemma last_Some_In' (l : list (name * Z)) n s : last (map Some l) None = Some (n, s) -> In (n, s) l.
+Proof.
+  intro El. assert (Hne : l <> []) by (intros ->; discriminate).
+  pose proof (top_In l Hne) as H. unfold top, top_size in H. rewrite El in H. exact H.
+Qed.
+
+Lemma tell_pden f cr grow taken r cur t p :
+  cr_ok f cr -> robj_ok f cr r -> at_pos f cr r cur t -> pos_ok f cr grow taken cur t ->
+  tell r = RPos p -> pden f cr grow p cur t.
+Proof.
+  intros (C0 & Cinj & Cpos & C1 & C2) (Ra & Rsub & R9 & Rle & R6) (Hnc & Hat) (P1 & P2 & P3 & P4 & P5) Ht.
+  assert (Hcr_in : forall n, In n (names (logfiles r)) -> exists i, In (n, i) cr).
+  { intros n H. apply Rsub in H. unfold names in H. apply in_map_iff in H as [[m i] [<- H]]. exists i. exact H. }
+  unfold tell in Ht. destruct (rf r) as [| |ri ro] eqn:Erf; [|congruence|];
+  (destruct (nth_error (logfiles r) (ridx r)) as [[n s]|] eqn:En;
+   [ inversion Ht; subst p; destruct Hat as [-> Hat];
+     destruct (Hcr_in n ltac:(apply nth_error_In in En; apply (in_map fst) in En; exact En)) as [i Hi]
+   | destruct Hat as (-> & Hx & Hlt & Hgap & Hsz);
+     destruct (last (map Some (logfiles r)) None) as [[n s]|] eqn:El; inversion Ht; subst p ]).
+  - exists i. split; [exact Hi|left]. split; [reflexivity|]. rewrite Hat. split; [reflexivity|lia].
+  - assert (Htop : top (logfiles r) = n /\ top_size (logfiles r) = s) by (unfold top, top_size; rewrite El; split; reflexivity).
+    destruct Htop as [Htop Hts]. rewrite Htop, Hts in *.
+    destruct (Hcr_in n ltac:(apply last_Some_In' in El; apply (in_map fst) in El; exact El)) as [i Hi].
+    exists i. split; [exact Hi|right]. split; [lia|]. split; [reflexivity|]. split; [exact Hgap|].
+    destruct (Hsz i Hi) as [Hd|Hs]; [left; exact Hd|].
+    destruct (P1 n i Hi Hlt) as [Hd|[_ Hg]]; [left; exact Hd|right; split; assumption].
+  - cbn. split; [reflexivity|]. assert (Htop : top (logfiles r) = -1) by (unfold top; rewrite El; reflexivity).
+    rewrite Htop in *. split; [lia|]. intros k i Hk Hklt. apply (Hgap k i Hk); [destruct (Cpos k i Hk); lia|exact Hklt].
+  - destruct Hat as (Hin & -> & Hle). exists ri. split; [exact Hin|left]. auto.
+  - congruence.
+  - congruence.
+Qed.
+
+Lemma env_pden f cr grow f' cr' grow' taken p cur t :
+  env_step f cr grow f' cr' grow' -> asc (names cr) -> (forall n i, In (n, i) cr -> 0 < n) ->
+  pos_ok f cr grow taken cur t -> pden f cr grow p cur t -> pden f' cr' grow' p cur t.
+Proof.
+  intros (E1 & (extra & -> & E2) & E3 & E4) C0 Cp (P1 & P2 & P3 & P4 & P5) Hp.
+  assert (Hnew : forall n i, In (n, i) extra -> cur <= n) by (intros n i H; specialize (E2 n i H); lia).
+  destruct p as [| |n [off|]]; cbn in *; try contradiction.
+  - destruct Hp as (-> & Hc & Hd). split; [reflexivity|]. split; [exact Hc|].
+    intros k i Hk Hlt. apply in_app_or in Hk as [Hk|Hk]; [eapply E1; eauto|specialize (Hnew k i Hk); lia].
+  - destruct Hp as (i & Hi & Hp). exists i. split; [apply in_or_app; left; exact Hi|].
+    destruct Hp as [(-> & -> & Hle)|(Hlt & -> & Hgap & Hend)].
+    + left. split; [reflexivity|]. destruct (E3 n i Hi) as [->|(_ & y & ->)]; [auto|].
+      split; [symmetry; apply bsum_app; exact Hle|rewrite app_length; lia].
+    + right. split; [exact Hlt|]. split; [reflexivity|]. split.
+      * intros k j Hk H1 H2. apply in_app_or in Hk as [Hk|Hk]; [eapply E1; eauto|specialize (Hnew k j Hk); lia].
+      * destruct Hend as [Hd|[Hs Hg]]; [left; eapply E1; eauto|right].
+        destruct (E3 n i Hi) as [Hc|[Hg' _]]; [|congruence]. split.
+        -- rewrite Hs. unfold isize, content. rewrite Hc. reflexivity.
+        -- intro Hg'. apply Hg. eapply E4; eauto.
+Qed.
+
+Lemma seek_find_split f (L : list (name * Z)) n : forall k, asc (names L) ->
+  let '(i, oj) := seek_find f L k n in
+  exists L1 L2, L = L1 ++ L2 /\ (forall m, In m (names L1) -> m < n) /\
+    match L2 with
+    | [] => i = (k + length L1)%nat /\ oj = None
+    | (m, _) :: _ =>
+        (n < m /\ i = (k + length L1)%nat /\ oj = None) \/
+        (m = n /\ ((exists j, lookup (dir f) n = Some j /\ oj = Some j /\ i = (k + length L1)%nat) \/
+                   (lookup (dir f) n = None /\ oj = None /\ i = S (k + length L1))))
+    end.
+Proof.
+  induction L as [|[m s] L IH]; intros k Ha; cbn [seek_find].
+  - exists [], []. split; [reflexivity|]. split; [intros m []|]. split; [cbn; lia|reflexivity].
+  - destruct (Z.ltb_spec n m).
+    + exists [], ((m, s) :: L). split; [reflexivity|]. split; [intros x []|]. left. split; [exact H|]. split; [cbn; lia|reflexivity].
+    + destruct (Z.eqb_spec m n) as [->|Hne].
+      * destruct (lookup (dir f) n) as [j|] eqn:El;
+          (exists [], ((n, s) :: L); split; [reflexivity|]; split; [intros x []|]; right; split; [reflexivity|]).
+        -- left. exists j. split; [reflexivity|]. split; [reflexivity|cbn; lia].
+        -- right. split; [reflexivity|]. split; [reflexivity|cbn; lia].
+      * change (names ((m, s) :: L)) with (m :: names L) in Ha. apply asc_cons in Ha as [Ha _].
+        specialize (IH (S k) Ha). destruct (seek_find f L (S k) n) as [i oj].
+        destruct IH as (L1 & L2 & -> & H1 & H2). exists ((m, s) :: L1), L2. split; [reflexivity|].
+        split; [intros x [Hx|Hx]; [cbn in Hx; subst x; lia|apply H1; exact Hx]|].
+        destruct L2 as [|[m' s'] L2]; cbn [length]; [destruct H2; split; [lia|assumption]|].
+        destruct H2 as [(A & B & C)|(A & [(j & B & C & D)|(B & C & D)])].
+        -- left. split; [exact A|]. split; [lia|exact C].
+        -- right. split; [exact A|]. left. exists j. split; [exact B|]. split; [exact C|lia].
+        -- right. split; [exact A|]. right. split; [exact B|]. split; [exact C|lia].
+Qed.
+
+Lemma restrict_le g m k : k <= m -> restrict g m k = g k.
+Proof. intro H. unfold restrict. destruct (Z.leb_spec k m); [reflexivity|lia]. Qed.
+Lemma restrict_gt g m k : m < k -> restrict g m k = O.
+Proof. intro H. unfold restrict. destruct (Z.leb_spec k m); [lia|reflexivity]. Qed.
+
+(* a freshly constructed reader (list = the directory now, nothing open) seeks to a saved position:
+   it resumes at or after it, having skipped only dead files, and what had been handed out from files
+   after the saved file no longer counts as delivered *)
+Lemma seek_pos f cr grow taken r0 cur t p :
+  fs_ok f -> cr_ok f cr -> logfiles r0 = log_listing f -> rf r0 = RNone -> robj_ok f cr r0 ->
+  pos_ok f cr grow taken cur t -> pden f cr grow p cur t ->
+  let r' := fst (seek r0 f p) in
+  robj_ok f cr r' /\ exists cur' t', at_pos f cr r' cur' t' /\ pos_ok f cr grow (restrict taken (pos_name p)) cur' t'.
+Proof.
+  intros Hfs Hcr HL Hrf Hr Hpos Hp. cbn zeta.
+  pose proof Hcr as (C0 & Cinj & Cpos & C1 & C2).
+  pose proof Hpos as (P1 & P2 & P3 & P4 & P5).
+  split; [apply seek_robj_ok; assumption|].
+  assert (HP5 : forall m k i, In (k, i) cr -> (restrict taken m k <= length (chunks f i))%nat).
+  { intros m k i Hk. unfold restrict. destruct (k <=? m); [apply (P5 k i Hk)|lia]. }
+  destruct p as [| |n [off|]]; cbn [pden pos_name] in *; try contradiction.
+  - (* from the start *)
+    destruct Hp as (-> & Hc & Hd).
+    destruct (seek_start_pos f cr grow r0 Hcr Hr ltac:(rewrite Hrf; discriminate)) as (_ & cur0 & Hc0 & Hat0 & Hpos0 & _).
+    exists cur0, O. split; [exact Hat0|].
+    destruct Hpos0 as (Q1 & Q2 & Q3 & Q4 & Q5).
+    split; [|split; [apply restrict_gt; lia|split; [intros k Hk; apply restrict_gt; lia|split; [exact Q4|apply HP5]]]].
+    intros k i Hk Hlt. rewrite restrict_gt by (destruct (Cpos k i Hk); lia). apply (Q1 k i Hk Hlt).
+  - (* into file n *)
+    destruct Hp as (i & Hi & Hp). destruct (Cpos n i Hi) as [Hn0 _].
+    assert (Hcr1 : close_read r0 = r0) by (unfold close_read; rewrite Hrf; reflexivity).
+    pose proof (listing_asc f (proj1 Hfs)) as La. rewrite <- HL in La.
+    pose proof (seek_find_split f (logfiles r0) n O La) as Hs.
+    unfold seek. rewrite Hrf, Hcr1. destruct (Z.ltb_spec n 0); [lia|].
+    destruct (seek_find f (logfiles r0) 0 n) as [idx oj]. destruct Hs as (L1 & L2 & HL12 & HL1 & Hs).
+    rewrite HL12 in La. rewrite names_app in La. apply asc_app in La as (La1 & La2 & La12).
+    assert (Hlisted : forall k, In k (names (logfiles r0)) -> exists j, lookup (dir f) k = Some j /\ In (k, j) cr).
+    { intros k Hk. rewrite HL in Hk. apply (listed_alive f k Hfs) in Hk as (j & Hl & Hk0). exists j. split; [exact Hl|].
+      apply C1; [apply lookup_In; exact Hl|apply is_log_true; exact Hk0]. }
+    assert (Hnl_dead : forall k j, In (k, j) cr -> ~ In k (names (logfiles r0)) -> dead f k).
+    { intros k j Hk Hnin. apply not_listed_dead; [destruct (Cpos k j Hk); lia|]. rewrite <- HL. exact Hnin. }
+    assert (Hafter : forall m s L2', L2 = (m, s) :: L2' -> forall k, In k (names L2') -> m < k).
+    { intros m s L2' -> k Hk. change (names ((m, s) :: L2')) with (m :: names L2') in La2.
+      apply asc_cons in La2 as [_ La2]. rewrite Forall_forall in La2. apply La2. exact Hk. }
+    assert (Hsz : forall j, In (top (logfiles r0), j) cr -> dead f (top (logfiles r0)) \/ top_size (logfiles r0) = isize f j)
+      by (apply (listing_top_size f cr (logfiles r0) Hfs Hcr HL)).
+    destruct L2 as [|[m s] L2].
+    + (* nothing at or after n *)
+      destruct Hs as [-> ->]. rewrite app_nil_r in HL12. cbn [fst Nat.add].
+      assert (Hdn : dead f n) by (apply (Hnl_dead n i Hi); rewrite HL12; intro H'; apply HL1 in H'; lia).
+      assert (Htopn : top (logfiles r0) < n) by (rewrite HL12; apply top_lt_all; [exact HL1|lia]).
+      assert (Hend : nth_error (logfiles r0) (length L1) = None) by (rewrite HL12; apply nth_error_None; lia).
+      destruct Hp as [(-> & -> & Hle)|(Hlt & -> & Hgap & Hendp)].
+      * exists (n + 1), O. split.
+        -- split; [cbn; rewrite Hrf; discriminate|]. cbn [logfiles ridx rf set_ridx]. rewrite Hend, Hrf.
+           split; [reflexivity|]. split; [reflexivity|]. split; [lia|]. split; [|exact Hsz].
+           intros k j Hk H1 H2. destruct (Z.eq_dec k n) as [->|]; [exact Hdn|]. apply (Hnl_dead k j Hk).
+           rewrite HL12. intro H'. pose proof (top_ge_all L1 k La1 H'). rewrite HL12 in H1. lia.
+        -- split; [|split; [apply restrict_gt; lia|split; [intros k Hk; apply restrict_gt; lia|split; [|apply HP5]]]].
+           ++ intros k j Hk Hklt. destruct (Z.eq_dec k n) as [->|]; [left; exact Hdn|].
+              rewrite restrict_le by lia. apply (P1 k j Hk). lia.
+           ++ pose proof (topc_max cr n i C0 Hi). lia.
+      * exists cur, O. split.
+        -- split; [cbn; rewrite Hrf; discriminate|]. cbn [logfiles ridx rf set_ridx]. rewrite Hend, Hrf.
+           split; [reflexivity|]. split; [reflexivity|]. split; [lia|]. split; [|exact Hsz].
+           intros k j Hk H1 H2. destruct (Z.lt_trichotomy k n) as [Hc|[->|Hc]]; [|exact Hdn|apply (Hgap k j Hk Hc H2)].
+           apply (Hnl_dead k j Hk). rewrite HL12. intro H'. pose proof (top_ge_all L1 k La1 H'). rewrite HL12 in H1. lia.
+        -- split; [|split; [apply restrict_gt; lia|split; [intros k Hk; apply restrict_gt; lia|split; [exact P4|apply HP5]]]].
+           intros k j Hk Hklt. destruct (Z.le_gt_cases k n) as [Hc|Hc].
+           ++ rewrite restrict_le by exact Hc. apply (P1 k j Hk Hklt).
+           ++ left. apply (Hgap k j Hk Hc Hklt).
+    + assert (Hnth : nth_error (logfiles r0) (length L1) = Some (m, s)) by (rewrite HL12; apply nth_error_split).
+      assert (Hmin : In m (names (logfiles r0))) by (rewrite HL12, names_app; apply in_or_app; right; left; reflexivity).
+      destruct (Hlisted m Hmin) as (jm & Hlm & Hmcr).
+      assert (Hbetween : forall k, In k (names (logfiles r0)) -> k < n \/ m <= k).
+      { intros k Hk. rewrite HL12, names_app in Hk. apply in_app_or in Hk as [Hk|Hk]; [left; apply HL1; exact Hk|right].
+        change (names ((m, s) :: L2)) with (m :: names L2) in Hk. destruct Hk as [<-|Hk]; [lia|]. specialize (Hafter m s L2 eq_refl k Hk). lia. }
+      destruct Hs as [(Hnm & -> & ->)|(-> & [(j & Hlj & -> & ->)|(Hln & _ & _)])].
+      * (* n is gone, m is the next file *)
+        cbn [fst Nat.add].
+        assert (Hdn : dead f n) by (apply (Hnl_dead n i Hi); intro H'; destruct (Hbetween n H'); lia).
+        assert (Hatm : at_pos f cr (set_ridx r0 (length L1)) m O).
+        { split; [cbn; rewrite Hrf; discriminate|]. cbn [logfiles ridx rf set_ridx]. rewrite Hnth, Hrf. split; reflexivity. }
+        exists m, O. split; [exact Hatm|].
+        assert (Hmtop : m <= topc cr) by (eapply topc_max; eauto).
+        destruct Hp as [(-> & -> & Hle)|(Hlt & -> & Hgap & Hendp)].
+        -- split; [|split; [apply restrict_gt; lia|split; [intros k Hk; apply restrict_gt; lia|split; [lia|apply HP5]]]].
+           intros k j Hk Hklt. destruct (Z.lt_trichotomy k n) as [Hc|[->|Hc]]; [rewrite restrict_le by lia; apply (P1 k j Hk Hc)|left; exact Hdn|].
+           left. apply (Hnl_dead k j Hk). intro H'. destruct (Hbetween k H'); lia.
+        -- assert (Hmcur : cur <= m).
+           { destruct (Z.le_gt_cases cur m); [assumption|]. exfalso. pose proof (Hgap m jm Hmcr Hnm H0) as Hd. unfold dead in Hd. congruence. }
+           split; [|split; [apply restrict_gt; lia|split; [intros k Hk; apply restrict_gt; lia|split; [lia|apply HP5]]]].
+           intros k j Hk Hklt. destruct (Z.le_gt_cases k n) as [Hc|Hc]; [rewrite restrict_le by exact Hc; apply (P1 k j Hk); lia|].
+           left. destruct (Z.lt_ge_cases k cur) as [Hc2|Hc2]; [apply (Hgap k j Hk Hc Hc2)|].
+           apply (Hnl_dead k j Hk). intro H'. destruct (Hbetween k H'); lia.
+      * (* the file is there: open it at the saved offset *)
+        cbn [fst Nat.add].
+        assert (Hji : j = i).
+        { assert (In (n, j) cr) by (apply C1; [apply lookup_In; exact Hlj|apply is_log_true; lia]). eapply cr_fun; eauto. }
+        subst j.
+        destruct Hp as [(-> & -> & Hle)|(Hlt & -> & Hgap & Hendp)].
+        -- exists n, t. split.
+           ++ split; [cbn; discriminate|]. cbn [logfiles ridx rf set_read]. rewrite Hnth. split; [reflexivity|]. auto.
+           ++ split; [|split; [rewrite restrict_le by lia; exact P2|split; [intros k Hk; apply restrict_gt; lia|split; [exact P4|apply HP5]]]].
+              intros k j Hk Hklt. rewrite restrict_le by lia. apply (P1 k j Hk Hklt).
+        -- destruct Hendp as [Hd|[Hoff Hg]]; [unfold dead in Hd; congruence|].
+           destruct (P1 n i Hi Hlt) as [Hd|[Htk _]]; [unfold dead in Hd; congruence|].
+           exists n, (length (chunks f i)). split.
+           ++ split; [cbn; discriminate|]. cbn [logfiles ridx rf set_read]. rewrite Hnth. split; [reflexivity|].
+              split; [exact Hi|]. split; [rewrite Hoff, bsum_all; reflexivity|lia].
+           ++ split; [|split; [rewrite restrict_le by lia; exact Htk|split; [intros k Hk; apply restrict_gt; lia|split; [|apply HP5]]]].
+              ** intros k j Hk Hklt. rewrite restrict_le by lia. apply (P1 k j Hk). lia.
+              ** pose proof (topc_max cr n i C0 Hi). lia.
+      * (* listed but not on disk: impossible for a list just scanned *)
+        exfalso. destruct (Hlisted n Hmin) as (j & Hl & _). congruence.
+Qed.
+
+(* ====================================================================================== *)
+(* what a successful write does to the directory and the inodes                             *)
+(* ====================================================================================== *)
+Lemma write_effect f r ts now p :
+  fs_ok f -> w_ok f r -> c_fixn (cf r) = true -> 0 <= now -> (forall t, ts = Some t -> 0 <= t) -> wf r <> WClosed ->
+  let data := serialize (c_mode (cf r)) (mk_payload p) in
+  let nm := new_name r (match ts with Some t => t | None => now end) in
+  let roll := match wf r with WNone => true | _ => false end in
+  let '(r', f', e) := write r f ts now p in
+  exists i,
+    (if roll then i = length (store f) /\ lookup (dir f) nm = None /\ top (logfiles r) < nm /\ 0 <= nm
+     else wf r = WOpen i) /\
+    (i < length (store f'))%nat /\
+    (forall j, j <> i -> chunks f' j = chunks f j) /\
+    chunks f' i = (if roll then [] else chunks f i) ++ (match data with [] => [] | _ => [data] end) /\
+    (forall k j, In (k, j) (dir f') -> In (k, j) (dir f) \/ (roll = true /\ k = nm /\ j = i)) /\
+    (roll = true -> In (nm, i) (dir f')) /\
+    (wf r' = WOpen i \/ wf r' = WNone) /\
+    top (logfiles r') = (if roll then nm else top (logfiles r)) /\
+    (length (store f) <= length (store f'))%nat.
+Proof.
+  intros Hfs Hw Hfx Hnow Hts Hc. cbn zeta. unfold write.
+  set (stamp := match ts with Some t => t | None => now end).
+  assert (Hst : 0 <= stamp) by (unfold stamp; destruct ts; auto).
+  set (data := serialize (c_mode (cf r)) (mk_payload p)).
+  assert (Htail : forall r1 f1 i, fs_ok f1 -> w_ok f1 r1 -> wf r1 = WOpen i ->
+            let '(r2, f2) := write_put r1 f1 i data in
+            let '(r3, f3) := write_finish r2 f2 in
+            (forall j, j <> i -> chunks f3 j = chunks f1 j) /\
+            chunks f3 i = chunks f1 i ++ (match data with [] => [] | _ => [data] end) /\
+            (forall k j, In (k, j) (dir f3) -> In (k, j) (dir f1)) /\
+            (forall j, In (top (logfiles r1), j) (dir f1) -> In (top (logfiles r1), j) (dir f3)) /\
+            (wf r3 = WOpen i \/ wf r3 = WNone) /\ top (logfiles r3) = top (logfiles r1) /\
+            length (store f3) = length (store f1) /\ (i < length (store f1))%nat).
+  { intros r1 f1 i F1 K1 Wf1.
+    pose proof (write_put_ok f1 r1 i data F1 K1 Wf1) as H2.
+    destruct (write_put r1 f1 i data) as [r2 f2] eqn:E2.
+    destruct H2 as (F2 & K2 & Wf2 & C2 & _ & _ & N2 & _ & D2).
+    assert (Hi : (i < length (store f1))%nat) by (destruct K1 as (_ & _ & _ & _ & _ & _ & _ & W5); apply (W5 i Wf1)).
+    assert (Hne2 : logfiles r2 <> []) by (destruct K2 as (_ & _ & _ & _ & _ & _ & _ & W5); apply (W5 i Wf2)).
+    assert (Ht : top (logfiles r2) = top (logfiles r1)) by (rewrite !top_names, N2; reflexivity).
+    assert (Hf2 : f2 = append f1 i data) by (unfold write_put in E2; inversion E2; reflexivity).
+    pose proof (write_finish_ok f2 r2 F2 K2 Hne2) as H3.
+    assert (Hwf3 : wf (fst (write_finish r2 f2)) = WOpen i \/ wf (fst (write_finish r2 f2)) = WNone).
+    { unfold write_finish. destruct (c_total_size (cf r2) <? lsize r2).
+      - rewrite prune_eq. destruct (prune_r_fields r2) as (_ & _ & _ & Pw).
+        match goal with |- context [if ?b then _ else _] => destruct b end; cbn; [right; reflexivity|left; congruence].
+      - match goal with |- context [if ?b then _ else _] => destruct b end; cbn; [right; reflexivity|left; exact Wf2]. }
+    destruct (write_finish r2 f2) as [r3 f3] eqn:E3. cbn [fst] in Hwf3.
+    destruct H3 as (F3 & K3 & C3 & S3 & T3 & Sub3 & Keep3 & KeepH3 & B3).
+    assert (Hch : forall j, chunks f3 j = chunks f2 j) by (intro j; unfold chunks; rewrite S3; reflexivity).
+    split; [intros j Hj; rewrite Hch, Hf2; destruct data as [|c d]; [rewrite append_nil; reflexivity|];
+            rewrite chunks_append by (auto; discriminate); destruct (Nat.eqb_spec j i); [congruence|reflexivity]|].
+    split; [rewrite Hch, Hf2; destruct data as [|c d]; [rewrite append_nil, app_nil_r; reflexivity|];
+            rewrite chunks_append by (auto; discriminate); rewrite Nat.eqb_refl; reflexivity|].
+    split; [intros k j H; apply Sub3 in H; rewrite D2 in H; exact H|].
+    split; [intros j H; rewrite <- Ht; apply Keep3; rewrite Ht, D2; exact H|].
+    split; [exact Hwf3|]. split; [congruence|]. split; [rewrite S3, Hf2; apply append_store_length|exact Hi]. }
+  destruct (wf r) as [| |i0] eqn:Ewf; [|congruence|].
+  - (* roll-over *)
+    assert (Hc' : wf r <> WClosed) by (rewrite Ewf; discriminate).
+    pose proof (write_open_ok f r stamp Hfs Hw Hfx Hst Hc') as H1.
+    pose proof (new_name_fresh f r stamp Hfs Hw Hfx Hst) as Hfresh.
+    destruct (new_name_top r stamp Hfx Hst) as (Htopnm & Hnn & _).
+    unfold write_open in *. rewrite Ewf in *. rewrite (create_trunc_new f _ Hfresh) in *.
+    set (f1 := mkfs (dir_insert (new_name r stamp) (length (store f)) (dir f)) (store f ++ [[]])) in *.
+    set (r1 := set_wf (set_logfiles r (logfiles r ++ [(new_name r stamp, 0)]) (lsize r)) (WOpen (length (store f)))) in *.
+    destruct H1 as (F1 & K1 & Wf1 & _).
+    specialize (Htail r1 f1 (length (store f)) F1 K1 Wf1).
+    destruct (write_put r1 f1 (length (store f)) data) as [r2 f2].
+    destruct (write_finish r2 f2) as [r3 f3].
+    destruct Htail as (T1 & T2 & T3 & T4 & T5 & T6 & T7 & T8).
+    assert (Htop1 : top (logfiles r1) = new_name r stamp) by (unfold r1; cbn [logfiles set_wf set_logfiles]; apply top_snoc).
+    exists (length (store f)).
+    split; [split; [reflexivity|split; [exact Hfresh|split; [exact Htopnm|exact Hnn]]]|].
+    split; [rewrite T7; unfold f1; cbn; rewrite app_length; cbn; lia|].
+    split; [intros j Hj; rewrite (T1 j Hj); unfold f1; apply chunks_snoc_store|].
+    split; [rewrite T2; unfold f1; rewrite chunks_snoc_store; change (chunks (mkfs (dir_insert (new_name r stamp) (length (store f)) (dir f)) (store f)) (length (store f))) with (chunks f (length (store f))); rewrite chunks_out_of_range by lia; reflexivity|].
+    split; [intros k j H; apply T3 in H; unfold f1 in H; cbn [dir] in H; apply In_insert in H; [|apply Hfs];
+            destruct H as [[-> ->]|[H _]]; [right; auto|left; exact H]|].
+    split; [intros _; rewrite <- Htop1; apply T4; rewrite Htop1; unfold f1; cbn [dir]; apply In_insert; [apply Hfs|left; split; reflexivity]|].
+    split; [exact T5|]. split; [rewrite T6; exact Htop1|]. rewrite T7. unfold f1. cbn. rewrite app_length. lia.
+  - assert (Hwo : write_open r f stamp = (r, f, i0)) by (unfold write_open; rewrite Ewf; reflexivity).
+    rewrite Hwo. specialize (Htail r f i0 Hfs Hw Ewf).
+    destruct (write_put r f i0 data) as [r2 f2]. destruct (write_finish r2 f2) as [r3 f3].
+    destruct Htail as (T1 & T2 & T3 & T4 & T5 & T6 & T7 & T8).
+    exists i0. split; [reflexivity|]. split; [lia|]. split; [exact T1|]. split; [exact T2|].
+    split; [intros k j H; left; apply T3; exact H|]. split; [discriminate|]. split; [exact T5|]. split; [exact T6|lia].
+Qed.
+
+(* ====================================================================================== *)
+(* the list/cursor invariant alone (readers that are not being followed)                    *)
+(* ====================================================================================== *)
+Lemma refresh_robj f cr r : fs_ok f -> cr_ok f cr -> robj_ok f cr r -> robj_ok f cr (refresh_logfiles r f).
+Proof.
+  intros Hfs Hcr Hr. pose proof Hr as (Ra & Rsub & R9 & Rle & R6).
+  pose proof (refresh_unfold r f) as Hu.
+  destruct (match nth_error (logfiles r) (ridx r) with
+            | Some (n, _) => (n, Some n)
+            | None => match last (map Some (logfiles r)) None with
+                      | Some (n, _) => (n, None) | None => (0, None) end end) as [old_ts old_path] eqn:Eo.
+  pose proof (refresh_find_spec (log_listing f) O old_path old_ts) as Hs.
+  destruct (refresh_find (log_listing f) 0 old_path old_ts) as [j close].
+  destruct Hs as (L1 & L2 & HL & -> & H1 & H2). rewrite Hu. cbn [Nat.add].
+  apply robj_ok_scan; auto; [rewrite HL, app_length; lia|].
+  intros i off Hx. destruct close; [destruct (rf r); discriminate|].
+  destruct L2 as [|[m s] L2]; [discriminate|]. destruct H2 as [[_ Hm]|[Hc _]]; [|discriminate].
+  destruct (R6 i off Hx) as (n & s' & Hn & Hin). rewrite Hn in Eo. injection Eo as E1 E2. rewrite <- E2 in Hm. injection Hm as Hm'. subst m.
+  exists n, s. split; [rewrite HL; apply nth_error_split|exact Hin].
+Qed.
+
+Lemma read_loop_robj f cr block : fs_ok f -> cr_ok f cr -> forall fuel r ar idx,
+  robj_ok f cr r -> idx = ridx r -> robj_ok f cr (fst (read_loop fuel f block r ar idx)).
+Proof.
+  intros Hfs Hcr. pose proof Hcr as (C0 & Cinj & Cpos & C1 & C2).
+  induction fuel as [|fuel IH]; intros r ar idx Hr ->; cbn [read_loop]; [exact Hr|].
+  pose proof Hr as (Ra & Rsub & R9 & Rle & R6).
+  destruct (rf r) as [| |i off] eqn:Erf; [|exact Hr|].
+  - destruct (nth_error (logfiles r) (ridx r)) as [[n s]|] eqn:En; [|exact Hr].
+    assert (Hidx : (ridx r < nlog r)%nat) by (apply nth_error_Some; unfold nlog; congruence).
+    destruct (lookup (dir f) n) as [i|] eqn:El.
+    + apply IH; [|reflexivity]. unfold robj_ok. cbn [logfiles ridx rf set_rf nlog]. repeat (split; [assumption|]).
+      intros j o H. inversion H; subst. exists n, s. split; [exact En|].
+      apply C1; [apply lookup_In; exact El|]. apply is_log_true.
+      assert (Hin : In n (names cr)) by (apply Rsub; apply nth_error_In in En; apply (in_map fst) in En; exact En).
+      unfold names in Hin. apply in_map_iff in Hin as [[m i2] [Hm Hin]]. cbn in Hm. subst m. destruct (Cpos n i2 Hin). lia.
+    + assert (Hr1 : robj_ok f cr (set_ridx r (S (ridx r)))).
+      { rewrite set_ridx_read by exact Erf. apply robj_ok_cursor; [exact Hr|lia|intros; discriminate]. }
+      destruct (nlog (set_ridx r (S (ridx r))) <=? S (ridx r))%nat.
+      * destruct ar; [|exact Hr1]. pose proof (refresh_robj f cr _ Hfs Hcr Hr1) as Hr2.
+        destruct (nlog _ <=? ridx _)%nat; [exact Hr2|]. apply IH; [exact Hr2|reflexivity].
+      * apply IH; [exact Hr1|reflexivity].
+  - destruct (if block then read_from f i off else readline (read_from f i off)) as [|c data].
+    + destruct (nlog r <=? S (ridx r))%nat eqn:Elast.
+      * destruct ar; [|exact Hr]. pose proof (refresh_robj f cr r Hfs Hcr Hr) as Hr2.
+        set (r2 := refresh_logfiles r f) in *.
+        match goal with |- context [(nlog r2 <=? ?I)%nat] => destruct (Nat.leb_spec (nlog r2) I) as [Hle|Hgt] end; [exact Hr2|].
+        apply IH; [|reflexivity]. apply robj_ok_cursor; [exact Hr2|lia|intros; discriminate].
+      * apply IH; [|reflexivity]. apply Nat.leb_gt in Elast. apply robj_ok_cursor; [exact Hr|lia|intros; discriminate].
+    + cbn [fst]. unfold robj_ok. cbn [logfiles ridx rf set_rf nlog]. repeat (split; [assumption|]).
+      intros j o H. inversion H; subst. apply (R6 j off eq_refl).
+Qed.
+
+Lemma read_raw_robj f cr block r : fs_ok f -> cr_ok f cr -> robj_ok f cr r -> robj_ok f cr (fst (read_raw r f block)).
+Proof.
+  intros Hfs Hcr Hr. unfold read_raw. destruct (nlog r <=? ridx r)%nat.
+  - destruct (c_autorefresh (cf r)); [|exact Hr]. pose proof (refresh_robj f cr r Hfs Hcr Hr) as Hr2.
+    destruct (nlog _ <=? ridx _)%nat; [exact Hr2|]. apply read_loop_robj; auto.
+  - apply read_loop_robj; auto.
+Qed.
+
+(* the list/cursor part of reshape_pos on its own *)
+Lemma reshape_robj f cr N idx x ex nd :
+  robj_ok_n f cr N idx x -> asc (N ++ ex) -> (forall n, In n ex -> In n (names cr)) ->
+  (forall n i, In (n, i) cr -> ~ dead f n -> In n (skipn nd (N ++ ex))) ->
+  let N' := skipn nd (N ++ ex) in
+  let idx' := if (nd <=? idx)%nat then (idx - nd)%nat else O in
+  let x' := if (nd <=? idx)%nat then x else closeopen x in
+  robj_ok_n f cr N' idx' x'.
+Proof.
+  intros (Ra & Rsub & R9 & Rle & R6) Hasc Hexcr Halive. cbn zeta.
+  assert (Hdec : forall n, dead f n \/ ~ dead f n) by (intro n; unfold dead; destruct (lookup (dir f) n); [right; discriminate|left; reflexivity]).
+  split; [apply asc_skipn; exact Hasc|].
+  split; [intros n Hn; apply In_skipn in Hn; apply in_app_or in Hn as [Hn|Hn]; auto|].
+  split; [intros n i Hin _; destruct (Hdec n) as [Hd|Hd]; [right; exact Hd|left; eapply Halive; eauto]|].
+  rewrite skipn_length, app_length.
+  destruct (Nat.leb_spec nd idx) as [Hle|Hgt].
+  - split; [lia|]. intros i off Hx. destruct (R6 i off Hx) as (n & H1 & H2). exists n. split; [|exact H2].
+    rewrite nth_error_skipn. replace (nd + (idx - nd))%nat with idx by lia.
+    rewrite nth_error_app1; [exact H1|apply nth_error_Some; congruence].
+  - split; [lia|]. intros i off Hx. destruct x; discriminate.
+Qed.
+
+Lemma pairs_fun (l : list (name * Z)) n s1 s2 : asc (names l) -> In (n, s1) l -> In (n, s2) l -> s1 = s2.
+Proof.
+  intros C0 Hi Hj. unfold names in C0. apply asc_NoDup in C0.
+  induction l as [|[a b] l IH]; [destruct Hi|]. cbn [map fst] in C0. inversion C0 as [|? ? Hx Hnd]; subst.
+  destruct Hi as [Hi|Hi], Hj as [Hj|Hj].
+  - congruence.
+  - inversion Hi; subst. exfalso. apply Hx. apply (in_map fst) in Hj. exact Hj.
+  - inversion Hj; subst. exfalso. apply Hx. apply (in_map fst) in Hi. exact Hi.
+  - auto.
+Qed.
+
+Lemma cr_last (cr : list (name * ino)) i : asc (names cr) -> In (topc cr, i) cr -> exists c0, cr = c0 ++ [(topc cr, i)].
+Proof.
+  intros C0 Hin. destruct (snoc_cases cr) as [->|(c0 & [n j] & ->)]; [destruct Hin|].
+  assert (Ht : topc (c0 ++ [(n, j)]) = n) by (unfold topc; rewrite names_app; cbn [names map fst]; apply last_last).
+  rewrite Ht in *. exists c0. f_equal. f_equal. f_equal. eapply cr_fun; eauto. apply in_or_app. right. left. reflexivity.
+Qed.
